@@ -5,7 +5,32 @@
    polynomial-circuit theory, the adapted optic of any circuit is evaluable and on (x, dy) returns
    (f(x), J_f(x)ᵀ·dy): reverse-mode differentiation by optic composition obeys the chain rule."
 
-  See the report at the end of the file for what is proved and what is open.
+  HEADLINE (all for EVERY lawful backend, every commutative ring, arbitrary wiring / edge order):
+  * `rev_correct_corrected : rev_correct_corrected_statement` — the full clause about the
+    EXECUTABLE optic (`LOptic.mapAdapted`, `Graph.eval`): for a lax optic whose generators have good
+    reverse-derivative images (`GenCorrect`), the adapted optic of every monogamous acyclic circuit is
+    defined (no `unwrap` fires), strictifies, is MONOGAMOUS, is evaluated by the model evaluator
+    (acyclic, single writer, arities) and on `x ++ dy` returns `y ++ gx` with `y` the real part of
+    the dual-number evaluation of the circuit (for every tangent) and `gx`, of the arity of `x`,
+    its reverse derivative at `x` against `dy`.
+  * `rev_correct_statement_false : ¬ rev_correct_statement` — the statement of `Props/C14.lean` is
+    FALSE as written (an ill-typed reverse image passes its hypothesis, the optic construction
+    panics), and `generatorsCorrect_degenerate`: its hypothesis `GeneratorsCorrect` quantifies over
+    all source/target types of a generator and therefore forces every forward object image to be
+    empty.  The corrected statement differs from it in exactly these points: `GenCorrect` is asked
+    for the typed operations OF THE CIRCUIT only, every object carries one ring element, and the
+    generator images are well-typed, monogamous, acyclic, without bare wires and arity-respecting.
+  * `adapt_monogamous : adapt_monogamous_statement` — the clause left open in `Props/C14Optic.lean`.
+  SEMANTIC LEVEL (no optic):
+  * `twoPass_correct` / `twoPass_core`, `cotangent_exists_unique` — on a monogamous acyclic circuit
+    with correct generator lenses the reverse pass exists, is unique, and computes `Jᵀ·dy`.
+  SYNTACTIC LINK (no semantics):
+  * `optic_mapOperations_sem`, `optic_adapt_sem`, `optic_circuit_sem`, `optic_lax_sem`,
+    `opticOK_of_gens` — the optic image of a batch, of a circuit, and its adapted form, described
+    for every hyperedge predicate `Φ` (valuations, rankings, arities, free labellings) by a forward
+    and a reverse labelling of the circuit's nodes around the generator images.
+  INSTANCE: `mul_genCorrect` and the `example`s after it (multiplication, non-empty residual).
+  Helper library: `OHVerif/Lemmas/RevDeriv.lean`.
 -/
 import OHVerif.Lemmas.RevDeriv
 import OHVerif.Props.C14Optic
@@ -609,5 +634,1814 @@ theorem optic_adapt_sem (B : Backend) (hB : B.Lawful) (sp : SOptic O1 A1 O2 A2) 
     rfl
 
 end
+
+/-! ## 4. the adapted optic image of a circuit: semantics and monogamy -/
+
+theorem flat_srcs (sf : OHG O1 A1) (hf : sf.wf = true) :
+    sf.toPlain.edges.flatMap (·.src) = sf.h.s.values.table ∧
+    sf.toPlain.edges.flatMap (·.tgt) = sf.h.t.values.table := by
+  have hw := (OHG.wf_iff_Wf sf).1 hf
+  constructor
+  · show sf.h.toPlainEdges.flatMap (·.src) = _
+    rw [List.flatMap_def, HG.toPlainEdges_map_src sf.h hw.h, IC.segs_flatten _ hw.h.s.valid]
+  · show sf.h.toPlainEdges.flatMap (·.tgt) = _
+    rw [List.flatMap_def, HG.toPlainEdges_map_tgt sf.h hw.h, IC.segs_flatten _ hw.h.t.valid]
+
+section
+variable [DecidableEq O2]
+
+/-- **the adapted optic image of a circuit.**  For a strict optic with unit object images and a
+    well-typed batch image (`OpticOK`): the optic functor applied to `sf` and `adapt` are defined;
+    the result `r` has type `F a ● R b → F b ● R a` and the hyperedges of the forward image followed
+    by those of the reverse image; its denotation is given by a forward and a reverse labelling of
+    the nodes of `sf` around the lens composite `c : F A ● R B → F B ● R A` of the batch, which in
+    turn is the forward image glued to the reverse image along the residuals; `r` is monogamous
+    as soon as `sf` and `c` are and the interface positions of `c` are distinct nodes. -/
+theorem optic_circuit_sem (B : Backend) (hB : B.Lawful) (sp : SOptic O1 A1 O2 A2) (fo ro : O1 → O2)
+    (hU : UnitObj sp fo ro) (sf : OHG O1 A1) (hf : sf.WF) (h : OpticOK sp (C12.opsOf sf)) :
+    ∃ (c ot r : OHG O2 A2) (a b : List O1),
+      sf.source = .ok a ∧ sf.target = .ok b ∧
+      SFunctor.mapArrow B (sp.toFunctor B) sf = .ok ot ∧ sp.adapt B ot a b = .ok r ∧
+      HasType r (a.map fo ++ b.map ro) (b.map fo ++ a.map ro) ∧
+      r.h.x = h.fwd.h.x ++ h.rev.h.x ∧
+      HasType c (h.fa.values ++ h.rb.values) (h.fb.values ++ h.ra.values) ∧
+      (Monogamous h.fwd.toPlain → Monogamous h.rev.toPlain → Monogamous c.toPlain) ∧
+      (∀ (T : Type) [Inhabited T] (Φ : A2 → List T → List T → Prop) (x dB yB gA : List T),
+        x.length = sf.h.s.values.table.length → dB.length = sf.h.t.values.table.length →
+        yB.length = sf.h.t.values.table.length → gA.length = sf.h.s.values.table.length →
+        (Den Φ c.toPlain (x ++ dB) (yB ++ gA) ↔ ∃ M, M.length = h.m.values.length ∧
+          Den Φ h.fwd.toPlain x
+            (interleave (splitSegs ((groupSegs (C12.opsOf sf).b h.fb).map List.length) yB)
+              (splitSegs h.m.sources.table M)) ∧
+          Den Φ h.rev.toPlain
+            (interleave (splitSegs h.m.sources.table M)
+              (splitSegs ((groupSegs (C12.opsOf sf).b h.rb).map List.length) dB)) gA)) ∧
+      (∀ (T : Type) [Inhabited T] (Φ : A2 → List T → List T → Prop) (xa db yb ga : List T),
+        xa.length = sf.s.table.length → ga.length = sf.s.table.length →
+        yb.length = sf.t.table.length → db.length = sf.t.table.length →
+        (Den Φ r.toPlain (xa ++ db) (yb ++ ga) ↔ ∃ fv rv : Nat → T,
+          sf.s.table.map fv = xa ∧ sf.t.table.map rv = db ∧ sf.t.table.map fv = yb ∧
+          sf.s.table.map rv = ga ∧
+          Den Φ c.toPlain
+            (sf.h.s.values.table.map fv ++ sf.h.t.values.table.map rv)
+            (sf.h.t.values.table.map fv ++ sf.h.s.values.table.map rv))) ∧
+      (Monogamous sf.toPlain → Monogamous c.toPlain →
+        (c.toPlain.ins ++ c.toPlain.outs).Nodup → Monogamous r.toPlain) := by
+  have hfwf : sf.wf = true := (OHG.wf_iff sf).2 hf
+  obtain ⟨fx, ot, r, a, b, W, hfx, hsa, hsb, hot, hr, tr, xr, wot, hW, qot, ir⟩ :=
+    optic_adapt_sem B hB sp fo ro hU sf hf h
+  -- unit families of the batch
+  obtain ⟨cF, cR, _, hF, hR, _, _, _, _, _, _, _, uF, uR, wF, wR⟩ :=
+    optic_unit_object sp fo ro hU (C12.opsOf sf).a.values
+  obtain ⟨cF', cR', _, hF', hR', _, _, _, _, _, _, _, uF', uR', wF', wR'⟩ :=
+    optic_unit_object sp fo ro hU (C12.opsOf sf).b.values
+  have e1 : cF = h.fa := by have := h.fa_eq; rw [hF] at this; exact Res.ok.inj this
+  have e2 : cR = h.ra := by have := h.ra_eq; rw [hR] at this; exact Res.ok.inj this
+  have e3 : cF' = h.fb := by have := h.fb_eq; rw [hF'] at this; exact Res.ok.inj this
+  have e4 : cR' = h.rb := by have := h.rb_eq; rw [hR'] at this; exact Res.ok.inj this
+  subst e1 e2 e3 e4
+  have nA : (C12.opsOf sf).a.values.length = sf.h.s.values.table.length :=
+    Prim.gatherP_length _ _ hf.hyper.src_lt
+  have nB : (C12.opsOf sf).b.values.length = sf.h.t.values.table.length :=
+    Prim.gatherP_length _ _ hf.hyper.tgt_lt
+  rw [nA] at uF uR
+  rw [nB] at uF' uR'
+  obtain ⟨fx', c, hfx', tfx, xfx, tc, ifx, mc, dc⟩ := optic_mapOperations_sem B hB sp
+    (C12.opsOf sf) h _ _ uF uR uF' uR'
+  rw [hfx] at hfx'
+  cases hfx'
+  have wc : c.wf = true := (OHG.wf_iff c).2 tc.1
+  have wfx : fx.wf = true := (OHG.wf_iff fx).2 tfx.1
+  have wr : r.wf = true := (OHG.wf_iff r).2 tr.1
+  have vfa : h.fa.values.length = sf.h.s.values.table.length := by rw [wF, List.length_map, nA]
+  have vra : h.ra.values.length = sf.h.s.values.table.length := by rw [wR, List.length_map, nA]
+  have vfb : h.fb.values.length = sf.h.t.values.table.length := by rw [wF', List.length_map, nB]
+  have vrb : h.rb.values.length = sf.h.t.values.table.length := by rw [wR', List.length_map, nB]
+  have lci : c.toPlain.ins.length = sf.h.s.values.table.length + sf.h.t.values.table.length := by
+    rw [C03.plain_ins_length wc tc.2.1, List.length_append, vfa, vrb]
+  have lco : c.toPlain.outs.length = sf.h.t.values.table.length + sf.h.s.values.table.length := by
+    rw [C03.plain_outs_length wc tc.2.2, List.length_append, vfb, vra]
+  have lXi : fx.toPlain.ins.length = 2 * sf.h.s.values.table.length := by
+    rw [C03.plain_ins_length wfx tfx.2.1]
+    obtain ⟨_, _, _, hF2, hR2, _, _, _, _, s1, s2, _⟩ :=
+      optic_unit_object sp fo ro hU (C12.opsOf sf).a.values
+    rw [h.fa_eq] at hF2; rw [h.ra_eq] at hR2
+    cases hF2; cases hR2
+    rw [s1, s2, interleave_units_length, nA]
+  have lXo : fx.toPlain.outs.length = 2 * sf.h.t.values.table.length := by
+    rw [C03.plain_outs_length wfx tfx.2.2]
+    obtain ⟨_, _, _, hF2, hR2, _, _, _, _, s1, s2, _⟩ :=
+      optic_unit_object sp fo ro hU (C12.opsOf sf).b.values
+    rw [h.fb_eq] at hF2; rw [h.rb_eq] at hR2
+    cases hF2; cases hR2
+    rw [s1, s2, interleave_units_length, nB]
+  refine ⟨c, ot, r, a, b, hsa, hsb, hot, hr, tr, xr.trans xfx, tc, mc, ?_, ?_, ?_⟩
+  · intro T _ Φ x dB yB gA h1 h2 h3 h4
+    exact dc T Φ x dB yB gA h1 h2 h3 h4
+  · intro T _ Φ xa db yb ga l1 l2 l3 l4
+    rw [den_iso (C03.wfP wr) ir, den_adapted (Φ := Φ) sf.h.w.length (C03.wfP wfx) hW hf.src_lt hf.tgt_lt
+      hf.hyper.src_lt hf.hyper.tgt_lt lXi lXo qot xa db yb ga l1 l2 l3 l4]
+    constructor
+    · rintro ⟨fv, rv, a1, a2, a3, a4, hd⟩
+      refine ⟨fv, rv, a1, a2, a3, a4, ?_⟩
+      rw [den_iso (C03.wfP wfx) ifx] at hd
+      exact (den_bent _ _ c.toPlain lci lco _ _ _ _ (by simp) (by simp) (by simp) (by simp)).1 hd
+    · rintro ⟨fv, rv, a1, a2, a3, a4, hd⟩
+      refine ⟨fv, rv, a1, a2, a3, a4, ?_⟩
+      rw [den_iso (C03.wfP wfx) ifx]
+      exact (den_bent _ _ c.toPlain lci lco _ _ _ _ (by simp) (by simp) (by simp) (by simp)).2 hd
+  · intro msf mcc hnd
+    have hq := unbend_quot qot
+    rw [unbend_substP] at hq
+    obtain ⟨eS, eT⟩ := flat_srcs sf hfwf
+    have iX : unbend fx.toPlain ≅ c.toPlain := by
+      have := unbend_iso ifx
+      rwa [show (⟨c.toPlain.nodes, c.toPlain.edges,
+        il2 (c.toPlain.ins.take _) (c.toPlain.outs.drop _),
+        il2 (c.toPlain.outs.take _) (c.toPlain.ins.drop _)⟩ : PDiag O2 A2) =
+        bent sf.h.s.values.table.length sf.h.t.values.table.length c.toPlain from rfl,
+        unbend_bent _ _ _ lci lco] at this
+    have mX : Monogamous (unbend fx.toPlain) :=
+      monogamous_iso (C03.wfP wc) (iso_symm (unbend_wf (C03.wfP wfx)) iX) mcc
+    have hndX : (fx.toPlain.ins ++ fx.toPlain.outs).Nodup := by
+      obtain ⟨π, ρ, _, _, _, _, hi, ho⟩ := ifx
+      apply nodup_of_map π
+      rw [List.map_append, ← hi, ← ho]
+      exact (bent_iface_perm _ _ c.toPlain lci lco).nodup_iff.2 hnd
+    have mQ : Monogamous (unbend ot.toPlain) := by
+      refine monogamous_bend (sf := sf.toPlain) (C03.wfP hfwf) msf hW (C03.wfP wfx) ?_ ?_ mX hndX ?_
+      · rw [eS]; exact lXi
+      · rw [eT]; exact lXo
+      · rw [eS, eT]; exact hq
+    exact monogamous_iso (unbend_wf (C03.wfP wot)) (iso_symm (C03.wfP wr) ir) mQ
+
+end
+
+/-! ## 5. the batch images of the strict optic induced by a generator-wise lax optic -/
+
+theorem zip3_map {α β γ δ : Type} (F : γ → List δ) (G : α → List δ) :
+    ∀ (xs : List α) (as : List β) (bs : List γ), xs.length = as.length → xs.length = bs.length →
+      (xs.zip (as.zip bs)).map (fun t => F t.2.2 ++ G t.1) =
+        List.zipWith (· ++ ·) (bs.map F) (xs.map G)
+  | [], _, _, _, _ => by simp
+  | x :: xs, a :: as, b :: bs, h1, h2 => by
+    simp only [List.length_cons, Nat.add_right_cancel_iff] at h1 h2
+    simp [zip3_map F G xs as bs h1 h2]
+  | x :: xs, [], _, h1, _ => by simp at h1
+  | x :: xs, _ :: _, [], _, h2 => by simp at h2
+
+theorem zip3_map' {α β γ δ : Type} (F : γ → List δ) (G : α → List δ) :
+    ∀ (xs : List α) (as : List β) (bs : List γ), xs.length = as.length → xs.length = bs.length →
+      (xs.zip (as.zip bs)).map (fun t => G t.1 ++ F t.2.2) =
+        List.zipWith (· ++ ·) (xs.map G) (bs.map F)
+  | [], _, _, _, _ => by simp
+  | x :: xs, a :: as, b :: bs, h1, h2 => by
+    simp only [List.length_cons, Nat.add_right_cancel_iff] at h1 h2
+    simp [zip3_map' F G xs as bs h1 h2]
+  | x :: xs, [], _, h1, _ => by simp at h1
+  | x :: xs, _ :: _, [], _, h2 => by simp at h2
+
+theorem flatMap_proj {α β γ : Type} (l : List α) (p : α → List β) (obj : β → List γ) :
+    l.flatMap (fun t => (p t).flatMap obj) = ((l.map p).flatten).flatMap obj := by
+  induction l with
+  | nil => rfl
+  | cons x l ih => simp [ih, List.flatMap_append]
+
+/-- regrouping the object images of the target types per operation -/
+theorem groupSegs_of_obj (b : IC (List O1)) (fb : IC (List O2)) (obj : O1 → List O2)
+    (hs : fb.segsL = b.values.map obj) :
+    groupSegs b fb = b.segsL.map (fun seg => seg.flatMap obj) := by
+  unfold groupSegs IC.segsL
+  rw [show splitSegs fb.sources.table fb.values = fb.segsL from rfl, hs, splitSegs_map,
+    List.map_map]
+  apply List.map_congr_left
+  intro seg _
+  simp [List.flatMap_def]
+
+section
+variable [DecidableEq O2]
+
+/-- the residual family of a batch under the lax optic -/
+theorem residual_spec (B : Backend) (P : LOptic O1 A1 O2 A2) (ops : Operations O1 A1) :
+    ∃ m, (P.toStrictOptic B).residual ops = .ok m ∧ C08.Valid m ∧ m.len = ops.x.length ∧
+      m.segsL = ops.x.map P.residual := by
+  have hsum : ((ops.x.map P.residual).map List.length).sum =
+      HasLen.len (ops.x.map P.residual).flatten := by
+    simp [List.length_flatten]
+  refine ⟨⟨⟨(ops.x.map P.residual).map List.length,
+    HasLen.len (ops.x.map P.residual).flatten + 1⟩, (ops.x.map P.residual).flatten⟩, ?_, ?_, ?_, ?_⟩
+  · simp only [LOptic.toStrictOptic]
+    rw [IC.fromSemifinite_eq, if_pos hsum]
+    rfl
+  · exact IC.mk_valid _ _ (by simp [List.length_flatten]) hsum
+  · simp [IC.len, FinFun.source]
+  · exact IC.segsL_eq_of _ _ rfl rfl
+
+/-- **the batch images of the induced strict optic.**  If every operation `x : s → t` of a valid
+    batch has a forward image `F(s) → F(t) ● M_x` and a reverse image `M_x ● R(t) → R(s)` (defined,
+    well-formed, strictifiable, of these types), the hypothesis bundle `OpticOK` of the typing
+    clause holds, and the forward (reverse) image of the batch is, up to `≅`, the juxtaposition
+    of the strictified forward (reverse) images of the operations. -/
+theorem opticOK_of_gens (B : Backend) (hB : B.Lawful) (P : LOptic O1 A1 O2 A2)
+    (ops : Operations O1 A1) (ha : ops.a.valid = true) (hb : ops.b.valid = true)
+    (hla : ops.x.length = ops.a.len) (hlb : ops.x.length = ops.b.len)
+    (imgF imgR : A1 → List O1 → List O1 → LOHG O2 A2)
+    (sF sR : A1 → List O1 → List O1 → OHG O2 A2)
+    (hF : ∀ t ∈ C12.opTriples ops, P.fwdOperation t.1 t.2.1 t.2.2 = .ok (imgF t.1 t.2.1 t.2.2) ∧
+      (imgF t.1 t.2.1 t.2.2).wf = true ∧
+      LOHG.toStrict B (imgF t.1 t.2.1 t.2.2) = .ok (sF t.1 t.2.1 t.2.2) ∧
+      (sF t.1 t.2.1 t.2.2).source = .ok (t.2.1.flatMap P.fwdObject) ∧
+      (sF t.1 t.2.1 t.2.2).target = .ok (t.2.2.flatMap P.fwdObject ++ P.residual t.1))
+    (hR : ∀ t ∈ C12.opTriples ops, P.revOperation t.1 t.2.1 t.2.2 = .ok (imgR t.1 t.2.1 t.2.2) ∧
+      (imgR t.1 t.2.1 t.2.2).wf = true ∧
+      LOHG.toStrict B (imgR t.1 t.2.1 t.2.2) = .ok (sR t.1 t.2.1 t.2.2) ∧
+      (sR t.1 t.2.1 t.2.2).source = .ok (P.residual t.1 ++ t.2.2.flatMap P.revObject) ∧
+      (sR t.1 t.2.1 t.2.2).target = .ok (t.2.1.flatMap P.revObject)) :
+    ∃ h : OpticOK (P.toStrictOptic B) ops,
+      h.fwd.toPlain ≅ juxtR ((C12.opTriples ops).map (fun t => (sF t.1 t.2.1 t.2.2).toPlain)) ∧
+      h.rev.toPlain ≅ juxtR ((C12.opTriples ops).map (fun t => (sR t.1 t.2.1 t.2.2).toPlain)) ∧
+      h.m.segsL = ops.x.map P.residual ∧
+      groupSegs ops.b h.fb = ops.b.segsL.map (fun seg => seg.flatMap P.fwdObject) ∧
+      groupSegs ops.b h.rb = ops.b.segsL.map (fun seg => seg.flatMap P.revObject) := by
+  obtain ⟨pa, pb, px⟩ := C12.opTriples_proj ops hla hlb
+  -- object images
+  obtain ⟨fa, efa, sfa, vfa, lfa, wfa⟩ :=
+    C12.dyn_mapObject_spec B (⟨P.fwdObject, P.fwdOperation⟩ : LFunctor O1 A1 O2 A2) ops.a.values
+  obtain ⟨fb, efb, sfb, vfb, lfb, wfb⟩ :=
+    C12.dyn_mapObject_spec B (⟨P.fwdObject, P.fwdOperation⟩ : LFunctor O1 A1 O2 A2) ops.b.values
+  obtain ⟨ra, era, sra, vra, lra, wra⟩ :=
+    C12.dyn_mapObject_spec B (⟨P.revObject, P.revOperation⟩ : LFunctor O1 A1 O2 A2) ops.a.values
+  obtain ⟨rb, erb, srb, vrb, lrb, wrb⟩ :=
+    C12.dyn_mapObject_spec B (⟨P.revObject, P.revOperation⟩ : LFunctor O1 A1 O2 A2) ops.b.values
+  obtain ⟨m, em, vm, lm, sm⟩ := residual_spec B P ops
+  -- batch images
+  obtain ⟨fwd, efwd, wfwd, sfwd, tfwd, ifwd⟩ := dyn_batch B hB
+    (⟨P.fwdObject, P.fwdOperation⟩ : LFunctor O1 A1 O2 A2) imgF sF
+    (fun t => t.2.1.flatMap P.fwdObject) (fun t => t.2.2.flatMap P.fwdObject ++ P.residual t.1)
+    ops ha hb hF
+  obtain ⟨rev, erev, wrev, srev, trev, irev⟩ := dyn_batch B hB
+    (⟨P.revObject, P.revOperation⟩ : LFunctor O1 A1 O2 A2) imgR sR
+    (fun t => P.residual t.1 ++ t.2.2.flatMap P.revObject) (fun t => t.2.1.flatMap P.revObject)
+    ops ha hb hR
+  have gF : groupSegs ops.b fb = ops.b.segsL.map (fun seg => seg.flatMap P.fwdObject) :=
+    groupSegs_of_obj ops.b fb P.fwdObject sfb
+  have gR : groupSegs ops.b rb = ops.b.segsL.map (fun seg => seg.flatMap P.revObject) :=
+    groupSegs_of_obj ops.b rb P.revObject srb
+  have la : ops.x.length = ops.a.segsL.length := by rw [IC.segsL_length]; exact hla
+  have lb : ops.x.length = ops.b.segsL.length := by rw [IC.segsL_length]; exact hlb
+  have flatA : ∀ obj : O1 → List O2,
+      (C12.opTriples ops).flatMap (fun t => t.2.1.flatMap obj) = (ops.a.values.map obj).flatten := by
+    intro obj
+    rw [flatMap_proj (C12.opTriples ops) (fun t : A1 × List O1 × List O1 => t.2.1) obj, pa,
+      IC.segsL_flatten _ ha, List.flatMap_def]
+  refine ⟨⟨fwd, rev, fa, fb, ra, rb, m, efwd, erev, efa, efb, era, erb, em, hb, vfa, vfb, vra, vrb,
+    vm, lfa.trans lra.symm, lfb, lrb, lm.trans hlb, wfwd, ?_, ?_, wrev, ?_, ?_⟩, ifwd, irev, sm, gF, gR⟩
+  · rw [sfwd, flatA, wfa]
+  · rw [tfwd, gF, sm]
+    congr 1
+    rw [List.flatMap_def]
+    congr 1
+    unfold C12.opTriples
+    exact zip3_map (fun seg => seg.flatMap P.fwdObject) P.residual ops.x ops.a.segsL ops.b.segsL la lb
+  · rw [srev, sm, gR]
+    congr 1
+    rw [List.flatMap_def]
+    congr 1
+    unfold C12.opTriples
+    exact zip3_map' (fun seg => seg.flatMap P.revObject) P.residual ops.x ops.a.segsL ops.b.segsL
+      la lb
+  · rw [trev, flatA, wra]
+
+end
+
+/-! ## 6. the two-pass theorem for arbitrary forward / reverse labellings -/
+
+section core
+variable {R : Type} [CommRing R] {O A : Type}
+
+/-- **core of the derivative clause** (no lenses, no optic): on a well-formed monogamous acyclic
+    circuit, let `fv` be a valuation of the real parts (`opfn` is the real part of `semD`, which
+    depends on real parts only) on the input `x`, and `rv` a labelling that is `dy` on the
+    outputs and at every hyperedge the reverse derivative of the generator at the `fv`-values of
+    the sources against the `rv`-values of the targets.  Then the dual-number evaluation of the
+    circuit has real part `fv` on the outputs, and `rv` on the inputs is its reverse
+    derivative at `x` against `dy`. -/
+theorem twoPass_core (B : Backend) (hB : B.Lawful) (f : OHG O A) (hf : f.wf = true)
+    (hac : Acyclic f.toPlain) (hm : Monogamous f.toPlain)
+    (semD : A → List (Dual R) → List (Dual R)) (opfn : A → List R → List R)
+    (harD : C16.ArityOK f semD)
+    (hre : ∀ e ∈ f.toPlain.edges, ∀ X : List (Dual R), X.length = e.src.length →
+      (semD e.label X).map Dual.re = opfn e.label (X.map Dual.re))
+    (x dy : List R) (hx : x.length = f.s.table.length) (fv rv : Nat → R)
+    (hins : f.toPlain.ins.map fv = x)
+    (hfv : ∀ e ∈ f.toPlain.edges, e.tgt.map fv = opfn e.label (e.src.map fv))
+    (houts : f.toPlain.outs.map rv = dy)
+    (hrv : ∀ e ∈ f.toPlain.edges,
+      IsRevDeriv (semD e.label) (e.src.map fv) (e.tgt.map rv) (e.src.map rv)) :
+    (∀ v : List R, v.length = x.length →
+      (evalOr B f (0 : Dual R) semD (dualize x v)).map Dual.re = f.t.table.map fv) ∧
+    IsRevDeriv (evalOr B f (0 : Dual R) semD) x dy (f.s.table.map rv) := by
+  have hwf := Eval.toPlain_wf f hf
+  have hopac := opAcyclic_of_acyclic f hf hac
+  have hsw := monogamous_singleWriter hwf hm
+  obtain ⟨_, _, hedges⟩ := Eval.pdiag_wf_unpack hwf
+  have hval : IsValuation f.toPlain opfn (0 : R) x fv := by
+    refine ⟨hins, hfv, ?_⟩
+    intro v hv hni hnt
+    exfalso
+    rcases monogamous_written hwf hm v hv with h | ⟨e, he, hve⟩
+    · exact hni h
+    · exact hnt e he hve
+  have key : ∀ v : List R, v.length = x.length →
+      ∃ valD : Nat → Dual R, IsValuation f.toPlain semD (0 : Dual R) (dualize x v) valD ∧
+        evalOr B f (0 : Dual R) semD (dualize x v) = f.t.table.map valD ∧
+        ∀ u, u < f.toPlain.n → (valD u).re = fv u := by
+    intro v hv
+    obtain ⟨outs, valD, hev, hvalD, houts'⟩ := C16.eval_spec B hB f hf semD (0 : Dual R)
+      (dualize x v) hopac hsw harD (by rw [dualize_length x v hv, hx])
+    refine ⟨valD, hvalD, ?_, ?_⟩
+    · unfold evalOr
+      rw [applyOf_eq, hev, houts']
+    · have hre' : IsValuation f.toPlain opfn (0 : R) x (fun u => (valD u).re) := by
+        refine ⟨?_, ?_, ?_⟩
+        · have := congrArg (List.map Dual.re) hvalD.ins
+          rw [dualize_map_re x v hv, List.map_map] at this
+          exact this
+        · intro e he
+          have h1 := congrArg (List.map Dual.re) (hvalD.ops e he)
+          rw [List.map_map] at h1
+          have h2 := hre e he (e.src.map valD) (by simp)
+          rw [List.map_map] at h2
+          exact h1.trans h2
+        · intro u hu hni hnt
+          rw [hvalD.rest u hu hni hnt]
+          rfl
+      intro u hu
+      exact Eval.valuation_unique hwf (noCycle_of_acyclic hac) hre' hval u hu
+  refine ⟨?_, ?_⟩
+  · intro v hv
+    obtain ⟨valD, _, hev, hre2⟩ := key v hv
+    rw [hev, List.map_map]
+    apply List.map_congr_left
+    intro u hu
+    obtain ⟨_, _, htw, _, htt⟩ := Eval.ohg_wf_unpack f hf
+    exact hre2 u (show u < f.h.w.length from htt ▸ htw u hu)
+  · intro v hv
+    obtain ⟨valD, hvalD, hev, hre2⟩ := key v hv
+    have hsrc : ∀ e ∈ f.toPlain.edges, e.src.map (fun u => (valD u).re) = e.src.map fv :=
+      fun e he => List.map_congr_left (fun u hu => hre2 u ((hedges e he).1 u hu))
+    have hcons := revDeriv_of_labellings hwf hm semD valD rv hvalD.ops (by
+      intro e he
+      rw [hsrc e he]
+      exact hrv e he)
+    have hins' : f.toPlain.ins.map (fun u => (valD u).eps) = v := by
+      have := congrArg (List.map Dual.eps) hvalD.ins
+      rw [dualize_map_eps x v hv, List.map_map] at this
+      exact this
+    rw [hins', houts] at hcons
+    rw [hev, List.map_map]
+    exact hcons
+
+end core
+
+/-! ## 7. the adapted optic image of a circuit in terms of the generator images -/
+
+theorem zip3_map_op {α β γ δ : Type} (op : δ → δ → δ) (F : γ → δ) (G : α → δ) :
+    ∀ (xs : List α) (as : List β) (bs : List γ), xs.length = as.length → xs.length = bs.length →
+      (xs.zip (as.zip bs)).map (fun t => op (F t.2.2) (G t.1)) =
+        List.zipWith op (bs.map F) (xs.map G)
+  | [], _, _, _, _ => by simp
+  | x :: xs, a :: as, b :: bs, h1, h2 => by
+    simp only [List.length_cons, Nat.add_right_cancel_iff] at h1 h2
+    simp [zip3_map_op op F G xs as bs h1 h2]
+  | x :: xs, [], _, h1, _ => by simp at h1
+  | x :: xs, _ :: _, [], _, h2 => by simp at h2
+
+theorem zip3_map_op' {α β γ δ : Type} (op : δ → δ → δ) (F : γ → δ) (G : α → δ) :
+    ∀ (xs : List α) (as : List β) (bs : List γ), xs.length = as.length → xs.length = bs.length →
+      (xs.zip (as.zip bs)).map (fun t => op (G t.1) (F t.2.2)) =
+        List.zipWith op (xs.map G) (bs.map F)
+  | [], _, _, _, _ => by simp
+  | x :: xs, a :: as, b :: bs, h1, h2 => by
+    simp only [List.length_cons, Nat.add_right_cancel_iff] at h1 h2
+    simp [zip3_map_op' op F G xs as bs h1 h2]
+  | x :: xs, [], _, h1, _ => by simp at h1
+  | x :: xs, _ :: _, [], _, h2 => by simp at h2
+
+theorem getD_map_nil {α β : Type} (f : α → β) (L : List (List α)) (k : Nat) :
+    (L.map (List.map f)).getD k [] = (L.getD k []).map f := by
+  simp only [List.getD_eq_getElem?_getD, List.getElem?_map]
+  cases L[k]? <;> rfl
+
+theorem flatMap_unit_length {α β : Type} (l : List α) (obj : α → List β)
+    (h : ∀ o, (obj o).length = 1) : (l.flatMap obj).length = l.length := by
+  induction l with
+  | nil => rfl
+  | cons x l ih => simp [ih, h x]; omega
+
+theorem nodup_ranges4 (a b c d : Nat) :
+    ((List.range' 0 a ++ List.range' a b) ++
+      (List.range' (a + b) c ++ List.range' (a + b + c) d)).Nodup := by
+  have e : (List.range' 0 a ++ List.range' a b) ++
+      (List.range' (a + b) c ++ List.range' (a + b + c) d) = List.range' 0 (a + b + c + d) := by
+    have h1 : List.range' 0 a ++ List.range' a b = List.range' 0 (a + b) := by
+      have := @List.range'_append_1 0 a b
+      simpa using this
+    have h2 : List.range' (a + b) c ++ List.range' (a + b + c) d = List.range' (a + b) (c + d) :=
+      List.range'_append_1
+    rw [h1, h2]
+    have := @List.range'_append_1 0 (a + b) (c + d)
+    simp only [Nat.zero_add] at this
+    rw [this, Nat.add_assoc (a + b)]
+  rw [e]
+  exact List.nodup_range' 1
+
+theorem getD_mem {α : Type} (l : List α) (k : Nat) (d : α) (hk : k < l.length) : l.getD k d ∈ l := by
+  rw [List.getD_eq_getElem?_getD, List.getElem?_eq_getElem hk]
+  exact List.getElem_mem hk
+
+theorem getD_map_lt {α β : Type} (f : α → β) (l : List α) (k : Nat) (hk : k < l.length) (d : α)
+    (d' : β) : (l.map f).getD k d' = f (l.getD k d) := by
+  simp [List.getD_eq_getElem?_getD, List.getElem?_eq_getElem hk]
+
+theorem zipWith_add_getD (k1 k2 : List Nat) (k : Nat) (h1 : k < k1.length) (h2 : k < k2.length) :
+    (List.zipWith (· + ·) k1 k2).getD k 0 = k1.getD k 0 + k2.getD k 0 := by
+  simp [List.getD_eq_getElem?_getD, List.getElem?_zipWith, List.getElem?_eq_getElem h1,
+    List.getElem?_eq_getElem h2]
+
+section
+variable [DecidableEq O2]
+
+/-- the strictified forward images of the operations of `sf`, as plain diagrams, in order -/
+def compsOf (sf : OHG O1 A1) (sF : A1 → List O1 → List O1 → OHG O2 A2) : List (PDiag O2 A2) :=
+  (C12.opTriples (C12.opsOf sf)).map (fun t => (sF t.1 t.2.1 t.2.2).toPlain)
+
+/-- **the adapted optic image of a circuit, in terms of the generator images.**
+    `P` is a lax optic whose object maps send every object to one object; every operation
+    `x : s → t` of the well-formed circuit `sf` has a forward image `F(s) → F(t) ● M_x` and a
+    reverse image `M_x ● R(t) → R(s)` (defined, well-formed, strictifiable, so typed).  Then the
+    optic functor of the induced strict optic and `adapt` are defined on `sf`; the result `r` is
+    well-formed of type `F a ● R b → F b ● R a`; it is monogamous as soon as `sf` and all strictified
+    generator images are and the interface positions of every generator image are distinct nodes;
+    and, for EVERY hyperedge predicate `Φ`, its denotation is: a forward labelling `fv` and a
+    reverse labelling `rv` of the nodes of `sf` and residual values `M`, such that every forward
+    image relates `fv|sources` to `fv|targets ● M_x` and every reverse image relates
+    `M_x ● rv|targets` to `rv|sources`. -/
+theorem optic_lax_sem (B : Backend) (hB : B.Lawful) (P : LOptic O1 A1 O2 A2) (fo ro : O1 → O2)
+    (hfo : ∀ o, P.fwdObject o = [fo o]) (hro : ∀ o, P.revObject o = [ro o])
+    (sf : OHG O1 A1) (hf : sf.WF)
+    (imgF imgR : A1 → List O1 → List O1 → LOHG O2 A2)
+    (sF sR : A1 → List O1 → List O1 → OHG O2 A2)
+    (hF : ∀ t ∈ C12.opTriples (C12.opsOf sf),
+      P.fwdOperation t.1 t.2.1 t.2.2 = .ok (imgF t.1 t.2.1 t.2.2) ∧
+      (imgF t.1 t.2.1 t.2.2).wf = true ∧
+      LOHG.toStrict B (imgF t.1 t.2.1 t.2.2) = .ok (sF t.1 t.2.1 t.2.2) ∧
+      (sF t.1 t.2.1 t.2.2).source = .ok (t.2.1.flatMap P.fwdObject) ∧
+      (sF t.1 t.2.1 t.2.2).target = .ok (t.2.2.flatMap P.fwdObject ++ P.residual t.1))
+    (hR : ∀ t ∈ C12.opTriples (C12.opsOf sf),
+      P.revOperation t.1 t.2.1 t.2.2 = .ok (imgR t.1 t.2.1 t.2.2) ∧
+      (imgR t.1 t.2.1 t.2.2).wf = true ∧
+      LOHG.toStrict B (imgR t.1 t.2.1 t.2.2) = .ok (sR t.1 t.2.1 t.2.2) ∧
+      (sR t.1 t.2.1 t.2.2).source = .ok (P.residual t.1 ++ t.2.2.flatMap P.revObject) ∧
+      (sR t.1 t.2.1 t.2.2).target = .ok (t.2.1.flatMap P.revObject)) :
+    ∃ (ot r : OHG O2 A2) (a b : List O1),
+      sf.source = .ok a ∧ sf.target = .ok b ∧
+      SFunctor.mapArrow B ((P.toStrictOptic B).toFunctor B) sf = .ok ot ∧
+      (P.toStrictOptic B).adapt B ot a b = .ok r ∧
+      HasType r (a.map fo ++ b.map ro) (b.map fo ++ a.map ro) ∧
+      -- monogamy
+      (Monogamous sf.toPlain →
+        (∀ Q ∈ compsOf sf sF, Monogamous Q ∧ (Q.ins ++ Q.outs).Nodup) →
+        (∀ Q ∈ compsOf sf sR, Monogamous Q ∧ (Q.ins ++ Q.outs).Nodup) → Monogamous r.toPlain) ∧
+      -- denotation
+      (∀ (T : Type) [Inhabited T] (Φ : A2 → List T → List T → Prop) (xa db yb ga : List T),
+        xa.length = sf.s.table.length → ga.length = sf.s.table.length →
+        yb.length = sf.t.table.length → db.length = sf.t.table.length →
+        (Den Φ r.toPlain (xa ++ db) (yb ++ ga) ↔ ∃ (fv rv : Nat → T) (M : List T),
+          sf.s.table.map fv = xa ∧ sf.t.table.map rv = db ∧ sf.t.table.map fv = yb ∧
+          sf.s.table.map rv = ga ∧
+          M.length = (sf.h.x.map (fun x => (P.residual x).length)).sum ∧
+          ∀ k, k < sf.h.x.length →
+            Den Φ ((compsOf sf sF).getD k PDiag.empty)
+              ((sf.h.s.segs.getD k []).map fv)
+              ((sf.h.t.segs.getD k []).map fv ++
+                (splitSegs (sf.h.x.map (fun x => (P.residual x).length)) M).getD k []) ∧
+            Den Φ ((compsOf sf sR).getD k PDiag.empty)
+              ((splitSegs (sf.h.x.map (fun x => (P.residual x).length)) M).getD k [] ++
+                (sf.h.t.segs.getD k []).map rv)
+              ((sf.h.s.segs.getD k []).map rv))) := by
+  have hfwf : sf.wf = true := (OHG.wf_iff sf).2 hf
+  have hWf := (OHG.wf_iff_Wf sf).1 hfwf
+  obtain ⟨va, vb⟩ := toOperations_valid sf hf
+  have hla : (C12.opsOf sf).x.length = (C12.opsOf sf).a.len := hf.hyper.src_count.symm
+  have hlb : (C12.opsOf sf).x.length = (C12.opsOf sf).b.len := hf.hyper.tgt_count.symm
+  obtain ⟨h, ifwd, irev, hmS, gF, gR⟩ := opticOK_of_gens B hB P (C12.opsOf sf) va vb hla hlb imgF imgR
+    sF sR hF hR
+  have eF : P.fwdObject = fun o => [fo o] := funext hfo
+  have eR : P.revObject = fun o => [ro o] := funext hro
+  have hU : UnitObj (P.toStrictOptic B) fo ro := by
+    constructor
+    · intro l
+      obtain ⟨c, hc, hs, hv, _⟩ :=
+        C12.dyn_mapObject_spec B (⟨P.fwdObject, P.fwdOperation⟩ : LFunctor O1 A1 O2 A2) l
+      exact ⟨c, hc, hv, by rw [hs]; show l.map P.fwdObject = _; rw [eF]⟩
+    · intro l
+      obtain ⟨c, hc, hs, hv, _⟩ :=
+        C12.dyn_mapObject_spec B (⟨P.revObject, P.revOperation⟩ : LFunctor O1 A1 O2 A2) l
+      exact ⟨c, hc, hv, by rw [hs]; show l.map P.revObject = _; rw [eR]⟩
+  obtain ⟨c, ot, r, a, b, hsa, hsb, hot, hr, tr, xr, tc, mc, dc, dr, mr⟩ :=
+    optic_circuit_sem B hB (P.toStrictOptic B) fo ro hU sf hf h
+  -- the three families of sizes
+  obtain ⟨pa, pb, px⟩ := C12.opTriples_proj (C12.opsOf sf) hla hlb
+  have lenF : ∀ l : List O1, (l.flatMap P.fwdObject).length = l.length := fun l =>
+    flatMap_unit_length l _ (fun o => by rw [hfo]; rfl)
+  have lenR : ∀ l : List O1, (l.flatMap P.revObject).length = l.length := fun l =>
+    flatMap_unit_length l _ (fun o => by rw [hro]; rfl)
+  have segA : (C12.opsOf sf).a.segsL.map List.length = sf.h.s.sources.table :=
+    IC.segsL_map_length _ va
+  have segB : (C12.opsOf sf).b.segsL.map List.length = sf.h.t.sources.table :=
+    IC.segsL_map_length _ vb
+  have F2 : (groupSegs (C12.opsOf sf).b h.fb).map List.length = sf.h.t.sources.table := by
+    rw [gF, List.map_map, ← segB]
+    exact List.map_congr_left (fun seg _ => lenF seg)
+  have F2' : (groupSegs (C12.opsOf sf).b h.rb).map List.length = sf.h.t.sources.table := by
+    rw [gR, List.map_map, ← segB]
+    exact List.map_congr_left (fun seg _ => lenR seg)
+  have F3 : h.m.sources.table = sf.h.x.map (fun x => (P.residual x).length) := by
+    rw [← IC.segsL_map_length h.m h.m_valid, hmS, List.map_map]; rfl
+  have F3' : h.m.values.length = (sf.h.x.map (fun x => (P.residual x).length)).sum := by
+    have := ((IC.valid_iff h.m).1 h.m_valid).2
+    simp only [IC.len_list] at this
+    rw [← this, F3]
+  have lS : sf.h.s.sources.table.length = sf.h.x.length := hf.hyper.src_count
+  have lT : sf.h.t.sources.table.length = sf.h.x.length := hf.hyper.tgt_count
+  have sumS : sf.h.s.sources.table.sum = sf.h.s.values.table.length :=
+    ((IC.valid_iff _).1 hWf.h.s.valid).2
+  have sumT : sf.h.t.sources.table.sum = sf.h.t.values.table.length :=
+    ((IC.valid_iff _).1 hWf.h.t.valid).2
+  -- the components
+  have wfF : ∀ Q ∈ compsOf sf sF, Q.wf = true := by
+    intro Q hQ
+    obtain ⟨t, ht, rfl⟩ := List.mem_map.1 hQ
+    exact C03.wfP ((C10.toStrict_quotient B hB _ (hF t ht).2.1).2.2 _ (hF t ht).2.2.1).1
+  have wfR : ∀ Q ∈ compsOf sf sR, Q.wf = true := by
+    intro Q hQ
+    obtain ⟨t, ht, rfl⟩ := List.mem_map.1 hQ
+    exact C03.wfP ((C10.toStrict_quotient B hB _ (hR t ht).2.1).2.2 _ (hR t ht).2.2.1).1
+  have swf : ∀ t ∈ C12.opTriples (C12.opsOf sf), (sF t.1 t.2.1 t.2.2).wf = true ∧
+      (sR t.1 t.2.1 t.2.2).wf = true := fun t ht =>
+    ⟨((C10.toStrict_quotient B hB _ (hF t ht).2.1).2.2 _ (hF t ht).2.2.1).1,
+     ((C10.toStrict_quotient B hB _ (hR t ht).2.1).2.2 _ (hR t ht).2.2.1).1⟩
+  have lx : (C12.opsOf sf).x.length = (C12.opsOf sf).a.segsL.length := by
+    rw [IC.segsL_length]; exact hla
+  have lx' : (C12.opsOf sf).x.length = (C12.opsOf sf).b.segsL.length := by
+    rw [IC.segsL_length]; exact hlb
+  have insF : (compsOf sf sF).map (·.ins.length) = sf.h.s.sources.table := by
+    unfold compsOf
+    rw [List.map_map, ← segA, ← pa, List.map_map]
+    apply List.map_congr_left
+    intro t ht
+    show (sF t.1 t.2.1 t.2.2).toPlain.ins.length = _
+    rw [C03.plain_ins_length (swf t ht).1 (hF t ht).2.2.2.1, lenF]; rfl
+  have outsR : (compsOf sf sR).map (·.outs.length) = sf.h.s.sources.table := by
+    unfold compsOf
+    rw [List.map_map, ← segA, ← pa, List.map_map]
+    apply List.map_congr_left
+    intro t ht
+    show (sR t.1 t.2.1 t.2.2).toPlain.outs.length = _
+    rw [C03.plain_outs_length (swf t ht).2 (hR t ht).2.2.2.2, lenR]; rfl
+  have outsF : (compsOf sf sF).map (·.outs.length) =
+      List.zipWith (· + ·) sf.h.t.sources.table (sf.h.x.map (fun x => (P.residual x).length)) := by
+    unfold compsOf
+    rw [List.map_map, ← segB]
+    have e : ∀ t ∈ C12.opTriples (C12.opsOf sf),
+        ((fun Q : PDiag O2 A2 => Q.outs.length) ∘ fun t => (sF t.1 t.2.1 t.2.2).toPlain) t =
+        (fun t : A1 × List O1 × List O1 => t.2.2.length + (P.residual t.1).length) t := by
+      intro t ht
+      show (sF t.1 t.2.1 t.2.2).toPlain.outs.length = _
+      rw [C03.plain_outs_length (swf t ht).1 (hF t ht).2.2.2.2, List.length_append, lenF]
+    rw [List.map_congr_left e]
+    unfold C12.opTriples
+    exact zip3_map_op (· + ·) List.length (fun x => (P.residual x).length) _ _ _ lx lx'
+  have insR : (compsOf sf sR).map (·.ins.length) =
+      List.zipWith (· + ·) (sf.h.x.map (fun x => (P.residual x).length)) sf.h.t.sources.table := by
+    unfold compsOf
+    rw [List.map_map, ← segB]
+    have e : ∀ t ∈ C12.opTriples (C12.opsOf sf),
+        ((fun Q : PDiag O2 A2 => Q.ins.length) ∘ fun t => (sR t.1 t.2.1 t.2.2).toPlain) t =
+        (fun t : A1 × List O1 × List O1 => (P.residual t.1).length + t.2.2.length) t := by
+      intro t ht
+      show (sR t.1 t.2.1 t.2.2).toPlain.ins.length = _
+      rw [C03.plain_ins_length (swf t ht).2 (hR t ht).2.2.2.1, List.length_append, lenR]
+    rw [List.map_congr_left e]
+    unfold C12.opTriples
+    exact zip3_map_op' (· + ·) List.length (fun x => (P.residual x).length) _ _ _ lx lx'
+  have lenC : (compsOf sf sF).length = sf.h.x.length := by
+    have := congrArg List.length insF
+    rwa [List.length_map, lS] at this
+  have lenC' : (compsOf sf sR).length = sf.h.x.length := by
+    have := congrArg List.length outsR
+    rwa [List.length_map, lS] at this
+  have wfwd : h.fwd.toPlain.wf = true := C03.wfP ((OHG.wf_iff _).2 h.fwd_wf)
+  have wrev : h.rev.toPlain.wf = true := C03.wfP ((OHG.wf_iff _).2 h.rev_wf)
+  have lkM : (sf.h.x.map (fun x => (P.residual x).length)).length = sf.h.x.length := by simp
+  -- the two batch images, block-wise
+  have batchF : ∀ (T : Type) [Inhabited T] (Φ : A2 → List T → List T → Prop) (x y M : List T),
+      x.length = sf.h.s.values.table.length → y.length = sf.h.t.values.table.length →
+      M.length = (sf.h.x.map (fun x => (P.residual x).length)).sum →
+      (Den Φ h.fwd.toPlain x (interleave (splitSegs sf.h.t.sources.table y)
+        (splitSegs (sf.h.x.map (fun x => (P.residual x).length)) M)) ↔
+      ∀ k, k < sf.h.x.length → Den Φ ((compsOf sf sF).getD k PDiag.empty)
+        ((splitSegs sf.h.s.sources.table x).getD k [])
+        ((splitSegs sf.h.t.sources.table y).getD k [] ++
+          (splitSegs (sf.h.x.map (fun x => (P.residual x).length)) M).getD k [])) := by
+    intro T _ Φ x y M hx hy hM
+    rw [den_batch_out (compsOf sf sF) wfwd wfF ifwd _ _ _ (lT.trans lkM.symm) insF outsF x y M
+      (by rw [hx, sumS]) (by rw [sumT, hy]) hM.symm, lenC]
+  have batchR : ∀ (T : Type) [Inhabited T] (Φ : A2 → List T → List T → Prop) (g y M : List T),
+      g.length = sf.h.s.values.table.length → y.length = sf.h.t.values.table.length →
+      M.length = (sf.h.x.map (fun x => (P.residual x).length)).sum →
+      (Den Φ h.rev.toPlain (interleave (splitSegs (sf.h.x.map (fun x => (P.residual x).length)) M)
+        (splitSegs sf.h.t.sources.table y)) g ↔
+      ∀ k, k < sf.h.x.length → Den Φ ((compsOf sf sR).getD k PDiag.empty)
+        ((splitSegs (sf.h.x.map (fun x => (P.residual x).length)) M).getD k [] ++
+          (splitSegs sf.h.t.sources.table y).getD k [])
+        ((splitSegs sf.h.s.sources.table g).getD k [])) := by
+    intro T _ Φ g y M hg hy hM
+    rw [den_batch_in (compsOf sf sR) wrev wfR irev _ _ _ (lkM.trans lT.symm) insR outsR g M y
+      (by rw [hg, sumS]) hM.symm (by rw [sumT, hy]), lenC']
+  -- the lens composite, block-wise
+  have dcB : ∀ (T : Type) [Inhabited T] (Φ : A2 → List T → List T → Prop) (x dB yB gA : List T),
+      x.length = sf.h.s.values.table.length → dB.length = sf.h.t.values.table.length →
+      yB.length = sf.h.t.values.table.length → gA.length = sf.h.s.values.table.length →
+      (Den Φ c.toPlain (x ++ dB) (yB ++ gA) ↔ ∃ M,
+        M.length = (sf.h.x.map (fun x => (P.residual x).length)).sum ∧
+        ∀ k, k < sf.h.x.length →
+          Den Φ ((compsOf sf sF).getD k PDiag.empty)
+            ((splitSegs sf.h.s.sources.table x).getD k [])
+            ((splitSegs sf.h.t.sources.table yB).getD k [] ++
+              (splitSegs (sf.h.x.map (fun x => (P.residual x).length)) M).getD k []) ∧
+          Den Φ ((compsOf sf sR).getD k PDiag.empty)
+            ((splitSegs (sf.h.x.map (fun x => (P.residual x).length)) M).getD k [] ++
+              (splitSegs sf.h.t.sources.table dB).getD k [])
+            ((splitSegs sf.h.s.sources.table gA).getD k [])) := by
+    intro T _ Φ x dB yB gA h1 h2 h3 h4
+    rw [dc T Φ x dB yB gA h1 h2 h3 h4, F2, F2', F3, F3']
+    constructor
+    · rintro ⟨M, hM, hfw, hrv⟩
+      refine ⟨M, hM, fun k hk => ⟨?_, ?_⟩⟩
+      · exact (batchF T Φ x yB M h1 h3 hM).1 hfw k hk
+      · exact (batchR T Φ gA dB M h4 h2 hM).1 hrv k hk
+    · rintro ⟨M, hM, hk⟩
+      exact ⟨M, hM, (batchF T Φ x yB M h1 h3 hM).2 (fun k hk' => (hk k hk').1),
+        (batchR T Φ gA dB M h4 h2 hM).2 (fun k hk' => (hk k hk').2)⟩
+  refine ⟨ot, r, a, b, hsa, hsb, hot, hr, tr, ?_, ?_⟩
+  · intro msf hQF hQR
+    have mfwd : Monogamous h.fwd.toPlain :=
+      monogamous_iso (juxtR_wf _ wfF) (iso_symm wfwd ifwd)
+        (monogamous_juxtR _ (fun Q hQ => ⟨wfF Q hQ, (hQF Q hQ).1⟩))
+    have mrev : Monogamous h.rev.toPlain :=
+      monogamous_iso (juxtR_wf _ wfR) (iso_symm wrev irev)
+        (monogamous_juxtR _ (fun Q hQ => ⟨wfR Q hQ, (hQR Q hQ).1⟩))
+    have mcc := mc mfwd mrev
+    apply mr msf mcc
+    -- the interface positions of the lens composite are distinct nodes
+    have hden : Den (fun _ _ _ => True) c.toPlain
+        (List.range' 0 sf.h.s.values.table.length ++
+          List.range' sf.h.s.values.table.length sf.h.t.values.table.length)
+        (List.range' (sf.h.s.values.table.length + sf.h.t.values.table.length)
+            sf.h.t.values.table.length ++
+          List.range' (sf.h.s.values.table.length + sf.h.t.values.table.length +
+            sf.h.t.values.table.length) sf.h.s.values.table.length) := by
+      refine (dcB Nat _ _ _ _ _ (by simp) (by simp) (by simp) (by simp)).2
+        ⟨List.replicate (sf.h.x.map (fun x => (P.residual x).length)).sum 0, by simp,
+          fun k hk => ⟨?_, ?_⟩⟩
+      · have hkC : k < (compsOf sf sF).length := by rw [lenC]; exact hk
+        have hmem := getD_mem (compsOf sf sF) k PDiag.empty hkC
+        apply den_top_of_nodup _ (hQF _ hmem).2
+        · rw [splitSegs_getD_length _ _ (by simp [sumS]),
+            ← getD_map_lt (fun Q : PDiag O2 A2 => Q.ins.length) _ k hkC PDiag.empty 0, insF]
+        · rw [List.length_append, splitSegs_getD_length _ _ (by simp [sumT]),
+            splitSegs_getD_length _ _ (by simp),
+            ← getD_map_lt (fun Q : PDiag O2 A2 => Q.outs.length) _ k hkC PDiag.empty 0, outsF,
+            zipWith_add_getD _ _ k (by rw [lT]; exact hk) (by rw [lkM]; exact hk)]
+      · have hkC : k < (compsOf sf sR).length := by rw [lenC']; exact hk
+        have hmem := getD_mem (compsOf sf sR) k PDiag.empty hkC
+        apply den_top_of_nodup _ (hQR _ hmem).2
+        · rw [List.length_append, splitSegs_getD_length _ _ (by simp),
+            splitSegs_getD_length _ _ (by simp [sumT]),
+            ← getD_map_lt (fun Q : PDiag O2 A2 => Q.ins.length) _ k hkC PDiag.empty 0, insR,
+            zipWith_add_getD _ _ k (by rw [lkM]; exact hk) (by rw [lT]; exact hk)]
+        · rw [splitSegs_getD_length _ _ (by simp [sumS]),
+            ← getD_map_lt (fun Q : PDiag O2 A2 => Q.outs.length) _ k hkC PDiag.empty 0, outsR]
+    exact nodup_of_den hden (nodup_ranges4 _ _ _ _)
+  · intro T _ Φ xa db yb ga l1 l2 l3 l4
+    rw [dr T Φ xa db yb ga l1 l2 l3 l4]
+    have segS : ∀ (g : Nat → T) (k : Nat),
+        (splitSegs sf.h.s.sources.table (sf.h.s.values.table.map g)).getD k [] =
+          (sf.h.s.segs.getD k []).map g := by
+      intro g k
+      rw [splitSegs_map]
+      exact getD_map_nil g _ k
+    have segT : ∀ (g : Nat → T) (k : Nat),
+        (splitSegs sf.h.t.sources.table (sf.h.t.values.table.map g)).getD k [] =
+          (sf.h.t.segs.getD k []).map g := by
+      intro g k
+      rw [splitSegs_map]
+      exact getD_map_nil g _ k
+    constructor
+    · rintro ⟨fv, rv, a1, a2, a3, a4, hd⟩
+      obtain ⟨M, hM, hk⟩ := (dcB T Φ _ _ _ _ (by simp) (by simp) (by simp) (by simp)).1 hd
+      refine ⟨fv, rv, M, a1, a2, a3, a4, hM, fun k hk' => ?_⟩
+      have := hk k hk'
+      rwa [segS, segT, segT, segS] at this
+    · rintro ⟨fv, rv, M, a1, a2, a3, a4, hM, hk⟩
+      refine ⟨fv, rv, a1, a2, a3, a4, ?_⟩
+      refine (dcB T Φ _ _ _ _ (by simp) (by simp) (by simp) (by simp)).2 ⟨M, hM, fun k hk' => ?_⟩
+      rw [segS, segT, segT, segS]
+      exact hk k hk'
+
+end
+
+/-! ## 8. the derivative clause, corrected statement -/
+
+/-- **ranks for the adapted optic of a ranked circuit**: from a ranking `ν` of the circuit (every
+    source of operation `k` ranks below every target) and a slack `K`, forward ranks `fv`, reverse
+    ranks `rv` and one residual rank `big` such that, for every operation `k`, with a level `L k`:
+    forward sources `≤ L k`, forward targets and `big` are `> L k + K`; `big` and reverse targets
+    are `≤ L' k`, reverse sources `> L' k + K` -/
+theorem rank_assignment (m : Nat) (srcs tgts : Nat → List Nat) (ν : Nat → Nat) (N K : Nat)
+    (hN : ∀ k, k < m → ∀ v, v ∈ srcs k ∨ v ∈ tgts k → ν v + 1 ≤ N)
+    (hν : ∀ k, k < m → ∀ u ∈ srcs k, ∀ w ∈ tgts k, ν u < ν w) :
+    ∃ (fv rv : Nat → Nat) (big : Nat) (L L' : Nat → Nat), ∀ k, k < m →
+      (∀ x ∈ (srcs k).map fv, x ≤ L k) ∧
+      (∀ y ∈ (tgts k).map fv, L k + K < y) ∧ L k + K < big ∧
+      big ≤ L' k ∧ (∀ x ∈ (tgts k).map rv, x ≤ L' k) ∧
+      (∀ y ∈ (srcs k).map rv, L' k + K < y) := by
+  let D := K + 2
+  let ℓ : Nat → Nat := fun k => listMax ((srcs k).map (fun v => ν v + 1))
+  refine ⟨fun v => D * (ν v + 1), fun v => D * (N + 1) + D * (N + 2 - (ν v + 1)), D * (N + 1),
+    fun k => D * ℓ k, fun k => D * (N + 1) + D * (N + 1 - ℓ k), ?_⟩
+  intro k hk
+  have hsrc : ∀ u ∈ srcs k, ν u + 1 ≤ ℓ k := fun u hu =>
+    le_listMax (List.mem_map.2 ⟨u, hu, rfl⟩)
+  have hℓN : ℓ k ≤ N := listMax_le (fun c hc => by
+    obtain ⟨u, hu, rfl⟩ := List.mem_map.1 hc
+    exact hN k hk u (Or.inl hu))
+  have htgt : ∀ w ∈ tgts k, ℓ k + 1 ≤ ν w + 1 := by
+    intro w hw
+    have : ℓ k ≤ ν w := listMax_le (fun c hc => by
+      obtain ⟨u, hu, rfl⟩ := List.mem_map.1 hc
+      have := hν k hk u hu w hw
+      omega)
+    omega
+  have mulD : ∀ a b : Nat, a ≤ b → D * a ≤ D * b := fun a b h => Nat.mul_le_mul_left D h
+  have succD : ∀ a : Nat, D * (a + 1) = D * a + D := fun a => Nat.mul_succ D a
+  have hD : D = K + 2 := rfl
+  refine ⟨?_, ?_, ?_, ?_, ?_, ?_⟩
+  · intro x hx
+    obtain ⟨u, hu, rfl⟩ := List.mem_map.1 hx
+    exact mulD _ _ (hsrc u hu)
+  · intro y hy
+    obtain ⟨w, hw, rfl⟩ := List.mem_map.1 hy
+    have h1 := mulD _ _ (htgt w hw)
+    have h2 := succD (ℓ k)
+    show D * ℓ k + K < D * (ν w + 1)
+    omega
+  · have h1 := mulD (ℓ k + 1) (N + 1) (by omega)
+    have h2 := succD (ℓ k)
+    show D * ℓ k + K < D * (N + 1)
+    omega
+  · show D * (N + 1) ≤ D * (N + 1) + D * (N + 1 - ℓ k)
+    omega
+  · intro x hx
+    obtain ⟨w, hw, rfl⟩ := List.mem_map.1 hx
+    have h0 := htgt w hw
+    have h1 := mulD (N + 2 - (ν w + 1)) (N + 1 - ℓ k) (by omega)
+    show D * (N + 1) + D * (N + 2 - (ν w + 1)) ≤ D * (N + 1) + D * (N + 1 - ℓ k)
+    omega
+  · intro y hy
+    obtain ⟨u, hu, rfl⟩ := List.mem_map.1 hy
+    have h0 := hsrc u hu
+    have h1 := mulD (N + 1 - ℓ k + 1) (N + 2 - (ν u + 1)) (by omega)
+    have h2 := succD (N + 1 - ℓ k)
+    show D * (N + 1) + D * (N + 1 - ℓ k) + K < D * (N + 1) + D * (N + 2 - (ν u + 1))
+    omega
+
+
+section final
+variable {R : Type} [CommRing R]
+
+/-- What the corrected statement asks of the strictified images `sFa`, `sRa` of a generator
+    `a : s → t` (all objects carry one ring element).  Compared with `GeneratorsCorrect` of
+    `Props/C14.lean`: the images must be WELL-TYPED (forward `F(s) → F(t) ● M_a`, reverse
+    `M_a ● R(t) → R(s)`), MONOGAMOUS and ACYCLIC, no input of an image is at the same time an
+    output (no bare wire), and the interpretation `sem2` respects their arities — all of which
+    hold for the standard images (an operation, copies, constants) and none of which follows
+    from the evaluation clauses alone. -/
+structure GenFacts [DecidableEq O2] (B : Backend) (P : LOptic O1 A1 O2 A2)
+    (semD : A1 → List (Dual R) → List (Dual R)) (sem2 : A2 → List R → List R)
+    (a : A1) (s t : List O1) (sFa sRa : OHG O2 A2) : Prop where
+  fwd_src : sFa.source = .ok (s.flatMap P.fwdObject)
+  fwd_tgt : sFa.target = .ok (t.flatMap P.fwdObject ++ P.residual a)
+  rev_src : sRa.source = .ok (P.residual a ++ t.flatMap P.revObject)
+  rev_tgt : sRa.target = .ok (s.flatMap P.revObject)
+  fwd_mono : Monogamous sFa.toPlain
+  rev_mono : Monogamous sRa.toPlain
+  fwd_acyc : Acyclic sFa.toPlain
+  rev_acyc : Acyclic sRa.toPlain
+  fwd_nopt : ∀ v ∈ sFa.s.table, v ∉ sFa.t.table
+  rev_nopt : ∀ v ∈ sRa.s.table, v ∉ sRa.t.table
+  fwd_ar : C16.ArityOK sFa sem2
+  rev_ar : C16.ArityOK sRa sem2
+  sem : ∀ (x dy : List R), x.length = s.length → dy.length = t.length →
+      ∃ (y m g : List R),
+        Graph.eval B sFa (0 : R) x (applyOf sem2) = .ok (y ++ m) ∧ y.length = t.length ∧
+        Graph.eval B sRa (0 : R) (m ++ dy) (applyOf sem2) = .ok g ∧
+        (∀ v : List R, v.length = x.length → (semD a (dualize x v)).map Dual.re = y) ∧
+        IsRevDeriv (semD a) x dy g
+
+/-- the generator `a : s → t` has good images under the lax optic `P` -/
+def GenCorrect [DecidableEq O2] (B : Backend) (P : LOptic O1 A1 O2 A2)
+    (semD : A1 → List (Dual R) → List (Dual R)) (sem2 : A2 → List R → List R)
+    (a : A1) (s t : List O1) : Prop :=
+  ∃ (Fa Ra : LOHG O2 A2) (sFa sRa : OHG O2 A2),
+    P.fwdOperation a s t = .ok Fa ∧ Fa.wf = true ∧ LOHG.toStrict B Fa = .ok sFa ∧
+    P.revOperation a s t = .ok Ra ∧ Ra.wf = true ∧ LOHG.toStrict B Ra = .ok sRa ∧
+    GenFacts B P semD sem2 a s t sFa sRa
+
+/-- the corrected full statement of the derivative clause of C14 -/
+def rev_correct_corrected_statement : Prop :=
+  ∀ (R : Type) [CommRing R] (O1 A1 O2 A2 : Type) [DecidableEq O1] [DecidableEq O2]
+    (B : Backend), B.Lawful →
+  ∀ (P : LOptic O1 A1 O2 A2) (semD : A1 → List (Dual R) → List (Dual R))
+    (sem2 : A2 → List R → List R),
+    (∀ o, (P.fwdObject o).length = 1 ∧ (P.revObject o).length = 1) →
+  ∀ (f : LOHG O1 A1) (sf : OHG O1 A1), f.wf = true → LOHG.toStrict B f = .ok sf →
+    Acyclic sf.toPlain → Monogamous sf.toPlain →
+    (∀ t ∈ C12.opTriples (C12.opsOf sf), GenCorrect B P semD sem2 t.1 t.2.1 t.2.2) →
+  ∀ (a b : List O1), sf.source = .ok a → sf.target = .ok b →
+  ∀ (x dy : List R), x.length = (a.flatMap P.fwdObject).length →
+    dy.length = (b.flatMap P.revObject).length →
+    ∃ (g : LOHG O2 A2) (sg : OHG O2 A2) (y gx : List R),
+      LOptic.mapAdapted B P f = .ok g ∧ LOHG.toStrict B g = .ok sg ∧ Monogamous sg.toPlain ∧
+      Graph.eval B sg (0 : R) (x ++ dy) (applyOf sem2) = .ok (y ++ gx) ∧
+      (∀ v : List R, v.length = x.length →
+        (evalOr B sf (0 : Dual R) semD (dualize x v)).map Dual.re = y) ∧
+      gx.length = x.length ∧
+      IsRevDeriv (evalOr B sf (0 : Dual R) semD) x dy gx
+
+/-- the generator image chosen by `P` (the empty diagram when undefined) -/
+def fwdImg (P : LOptic O1 A1 O2 A2) (a : A1) (s t : List O1) : LOHG O2 A2 :=
+  match P.fwdOperation a s t with
+  | .ok d => d
+  | _ => LOHG.empty
+
+def revImg (P : LOptic O1 A1 O2 A2) (a : A1) (s t : List O1) : LOHG O2 A2 :=
+  match P.revOperation a s t with
+  | .ok d => d
+  | _ => LOHG.empty
+
+/-- strictification (the empty diagram when it fails) -/
+def strictOr [DecidableEq O2] (B : Backend) (d : LOHG O2 A2) : OHG O2 A2 :=
+  match LOHG.toStrict B d with
+  | .ok r => r
+  | _ => ⟨⟨[], 0⟩, ⟨[], 0⟩, HG.empty⟩
+
+theorem genCorrect_imgs [DecidableEq O2] {B : Backend} {P : LOptic O1 A1 O2 A2}
+    {semD : A1 → List (Dual R) → List (Dual R)} {sem2 : A2 → List R → List R}
+    {a : A1} {s t : List O1} (h : GenCorrect B P semD sem2 a s t) :
+    P.fwdOperation a s t = .ok (fwdImg P a s t) ∧ (fwdImg P a s t).wf = true ∧
+    LOHG.toStrict B (fwdImg P a s t) = .ok (strictOr B (fwdImg P a s t)) ∧
+    P.revOperation a s t = .ok (revImg P a s t) ∧ (revImg P a s t).wf = true ∧
+    LOHG.toStrict B (revImg P a s t) = .ok (strictOr B (revImg P a s t)) ∧
+    GenFacts B P semD sem2 a s t (strictOr B (fwdImg P a s t)) (strictOr B (revImg P a s t)) := by
+  obtain ⟨Fa, Ra, sFa, sRa, h1, h2, h3, h4, h5, h6, h7⟩ := h
+  have e1 : fwdImg P a s t = Fa := by simp [fwdImg, h1]
+  have e2 : revImg P a s t = Ra := by simp [revImg, h4]
+  have e3 : strictOr B Fa = sFa := by simp [strictOr, h3]
+  have e4 : strictOr B Ra = sRa := by simp [strictOr, h6]
+  rw [e1, e2, e3, e4]
+  exact ⟨h1, h2, h3, h4, h5, h6, h7⟩
+
+theorem getD_map_default {α β : Type} (f : α → β) (l : List α) (k : Nat) (d : α) :
+    (l.map f).getD k (f d) = f (l.getD k d) := by
+  simp only [List.getD_eq_getElem?_getD, List.getElem?_map]
+  cases l[k]? <;> rfl
+
+theorem length_getD_of_map_eq {α β : Type} (L : List (List α)) (L' : List (List β)) (k : Nat)
+    (h : L.map List.length = L'.map List.length) : (L.getD k []).length = (L'.getD k []).length := by
+  have e0 : (L.map List.length).getD k 0 = (L'.map List.length).getD k 0 := by rw [h]
+  have e1 : (L.map List.length).getD k 0 = (L.getD k []).length :=
+    getD_map_default List.length L k []
+  have e2 : (L'.map List.length).getD k 0 = (L'.getD k []).length :=
+    getD_map_default List.length L' k []
+  exact e1.symm.trans (e0.trans e2)
+
+theorem unit_list_eq (l l' : List Unit) (h : l.length = l'.length) : l = l' := by
+  apply List.ext_getElem h
+  intro i _ _
+  rfl
+
+theorem mem_splitSegs_getD {α : Type} (ks : List Nat) (vs : List α) (k : Nat) (y : α)
+    (h : y ∈ (splitSegs ks vs).getD k []) : y ∈ vs := by
+  rw [splitSegs_getD] at h
+  exact List.mem_of_mem_drop (List.mem_of_mem_take h)
+
+/-- a uniform slack for a list of components -/
+theorem exists_uniform_slack {α : Type} (Qs : List α) (Pr : α → Nat → Prop)
+    (hmono : ∀ Q K K', K ≤ K' → Pr Q K → Pr Q K') (h : ∀ Q ∈ Qs, ∃ K, Pr Q K) :
+    ∃ K, ∀ Q ∈ Qs, Pr Q K := by
+  induction Qs with
+  | nil => exact ⟨0, fun Q hQ => by cases hQ⟩
+  | cons Q Qs ih =>
+    obtain ⟨K1, h1⟩ := h Q (by simp)
+    obtain ⟨K2, h2⟩ := ih (fun Q' hQ' => h Q' (by simp [hQ']))
+    refine ⟨max K1 K2, ?_⟩
+    intro Q' hQ'
+    rcases List.mem_cons.1 hQ' with rfl | hQ'
+    · exact hmono _ _ _ (Nat.le_max_left _ _) h1
+    · exact hmono _ _ _ (Nat.le_max_right _ _) (h2 Q' hQ')
+
+/-- **THE DERIVATIVE CLAUSE OF C14** (corrected statement): for a lax optic whose generators are
+    sent to good reverse-derivative lens images, the adapted optic of every monogamous acyclic
+    circuit is defined, monogamous, evaluable by the model evaluator on every lawful backend, and
+    on `(x, dy)` returns `(f(x), J_f(x)ᵀ·dy)`. -/
+theorem rev_correct_corrected : rev_correct_corrected_statement := by
+  intro R _ O1 A1 O2 A2 _ _ B hB P semD sem2 hunit f sf hfwf hts hac hm hgen a b hsa hsb x dy hx hdy
+  classical
+  -- unit objects
+  obtain ⟨fo, hfo⟩ := Classical.axiom_of_choice
+    (fun o => List.length_eq_one_iff.1 (hunit o).1)
+  obtain ⟨ro, hro⟩ := Classical.axiom_of_choice
+    (fun o => List.length_eq_one_iff.1 (hunit o).2)
+  have lenF : ∀ l : List O1, (l.flatMap P.fwdObject).length = l.length := fun l =>
+    flatMap_unit_length l _ (fun o => (hunit o).1)
+  have lenR : ∀ l : List O1, (l.flatMap P.revObject).length = l.length := fun l =>
+    flatMap_unit_length l _ (fun o => (hunit o).2)
+  rw [lenF] at hx
+  rw [lenR] at hdy
+  have hsfwf : sf.wf = true := ((C10.toStrict_quotient B hB f hfwf).2.2 sf hts).1
+  have hf : sf.WF := (OHG.wf_iff sf).1 hsfwf
+  -- generator images
+  have hF : ∀ t ∈ C12.opTriples (C12.opsOf sf),
+      P.fwdOperation t.1 t.2.1 t.2.2 = .ok (fwdImg P t.1 t.2.1 t.2.2) ∧
+      (fwdImg P t.1 t.2.1 t.2.2).wf = true ∧
+      LOHG.toStrict B (fwdImg P t.1 t.2.1 t.2.2) = .ok (strictOr B (fwdImg P t.1 t.2.1 t.2.2)) ∧
+      (strictOr B (fwdImg P t.1 t.2.1 t.2.2)).source = .ok (t.2.1.flatMap P.fwdObject) ∧
+      (strictOr B (fwdImg P t.1 t.2.1 t.2.2)).target =
+        .ok (t.2.2.flatMap P.fwdObject ++ P.residual t.1) := by
+    intro t ht
+    obtain ⟨h1, h2, h3, _, _, _, h7⟩ := genCorrect_imgs (hgen t ht)
+    exact ⟨h1, h2, h3, h7.fwd_src, h7.fwd_tgt⟩
+  have hR : ∀ t ∈ C12.opTriples (C12.opsOf sf),
+      P.revOperation t.1 t.2.1 t.2.2 = .ok (revImg P t.1 t.2.1 t.2.2) ∧
+      (revImg P t.1 t.2.1 t.2.2).wf = true ∧
+      LOHG.toStrict B (revImg P t.1 t.2.1 t.2.2) = .ok (strictOr B (revImg P t.1 t.2.1 t.2.2)) ∧
+      (strictOr B (revImg P t.1 t.2.1 t.2.2)).source =
+        .ok (P.residual t.1 ++ t.2.2.flatMap P.revObject) ∧
+      (strictOr B (revImg P t.1 t.2.1 t.2.2)).target = .ok (t.2.1.flatMap P.revObject) := by
+    intro t ht
+    obtain ⟨_, _, _, h4, h5, h6, h7⟩ := genCorrect_imgs (hgen t ht)
+    exact ⟨h4, h5, h6, h7.rev_src, h7.rev_tgt⟩
+  obtain ⟨ot, r, a', b', hsa', hsb', hot, hr, tr, mono, den⟩ := optic_lax_sem B hB P fo ro hfo hro
+    sf hf (fwdImg P) (revImg P) (fun a s t => strictOr B (fwdImg P a s t))
+    (fun a s t => strictOr B (revImg P a s t)) hF hR
+  rw [hsa] at hsa'; rw [hsb] at hsb'
+  cases hsa'; cases hsb'
+  have wr : r.wf = true := (OHG.wf_iff r).2 tr.1
+  obtain ⟨sg, hsg, wsg, isg, _⟩ := C10.to_from_strict_lawful B hB r wr
+  have hfrom := (C10.fromStrict_spec r wr).1
+  rw [hfrom] at hsg
+  have hsg' : LOHG.toStrict B (LaxStrict.unpack r) = .ok sg := hsg
+  have hmap : LOptic.mapAdapted B P f = .ok (LaxStrict.unpack r) := by
+    unfold LOptic.mapAdapted
+    simp only [hts, Res.ok_bind, hot, hsa, hsb, hr, hfrom]
+  -- indexing the operations
+  obtain ⟨va, vb⟩ := toOperations_valid sf hf
+  have hla : (C12.opsOf sf).x.length = (C12.opsOf sf).a.len := hf.hyper.src_count.symm
+  have hlb : (C12.opsOf sf).x.length = (C12.opsOf sf).b.len := hf.hyper.tgt_count.symm
+  obtain ⟨pa, pb, px⟩ := C12.opTriples_proj (C12.opsOf sf) hla hlb
+  have hWf := (OHG.wf_iff_Wf sf).1 hsfwf
+  have lenTr : (C12.opTriples (C12.opsOf sf)).length = sf.h.x.length := by
+    have := congrArg List.length px
+    rw [List.length_map] at this
+    exact this
+  have idx : ∀ k (hk : k < sf.h.x.length), ∃ t ∈ C12.opTriples (C12.opsOf sf),
+      t.1 = sf.h.x[k] ∧ t.2.1.length = (sf.h.s.segs.getD k []).length ∧
+      t.2.2.length = (sf.h.t.segs.getD k []).length ∧
+      (compsOf sf (fun a s t => strictOr B (fwdImg P a s t))).getD k PDiag.empty =
+        (strictOr B (fwdImg P t.1 t.2.1 t.2.2)).toPlain ∧
+      (compsOf sf (fun a s t => strictOr B (revImg P a s t))).getD k PDiag.empty =
+        (strictOr B (revImg P t.1 t.2.1 t.2.2)).toPlain := by
+    intro k hk
+    have hk' : k < (C12.opTriples (C12.opsOf sf)).length := lenTr ▸ hk
+    refine ⟨(C12.opTriples (C12.opsOf sf))[k], List.getElem_mem hk', ?_, ?_, ?_, ?_, ?_⟩
+    · have := congrArg (fun l => l[k]?) px
+      simp only [List.getElem?_map, List.getElem?_eq_getElem hk'] at this
+      have h2 : (C12.opsOf sf).x[k]? = some sf.h.x[k] := List.getElem?_eq_getElem hk
+      rw [h2] at this
+      exact Option.some.inj this
+    · have eA : (C12.opsOf sf).a.segsL.map List.length = sf.h.s.segs.map List.length :=
+        (IC.segsL_map_length _ va).trans (IC.segs_map_length _ hWf.h.s.valid).symm
+      have h1 : (C12.opsOf sf).a.segsL.getD k [] = (C12.opTriples (C12.opsOf sf))[k].2.1 := by
+        rw [← pa]
+        simp [List.getD_eq_getElem?_getD, List.getElem?_eq_getElem hk']
+      rw [← h1]
+      exact length_getD_of_map_eq _ _ k eA
+    · have eB : (C12.opsOf sf).b.segsL.map List.length = sf.h.t.segs.map List.length :=
+        (IC.segsL_map_length _ vb).trans (IC.segs_map_length _ hWf.h.t.valid).symm
+      have h1 : (C12.opsOf sf).b.segsL.getD k [] = (C12.opTriples (C12.opsOf sf))[k].2.2 := by
+        rw [← pb]
+        simp [List.getD_eq_getElem?_getD, List.getElem?_eq_getElem hk']
+      rw [← h1]
+      exact length_getD_of_map_eq _ _ k eB
+    · unfold compsOf
+      rw [getD_map_lt _ _ k hk' (C12.opTriples (C12.opsOf sf))[k] PDiag.empty]
+      simp [List.getD_eq_getElem?_getD, List.getElem?_eq_getElem hk']
+    · unfold compsOf
+      rw [getD_map_lt _ _ k hk' (C12.opTriples (C12.opsOf sf))[k] PDiag.empty]
+      simp [List.getD_eq_getElem?_getD, List.getElem?_eq_getElem hk']
+  -- lengths of the interface
+  have la : sf.s.table.length = a.length := C03.plain_ins_length hsfwf hsa
+  have lb : sf.t.table.length = b.length := C03.plain_outs_length hsfwf hsb
+  -- facts about the components, by membership
+  have compF : ∀ Q ∈ compsOf sf (fun a s t => strictOr B (fwdImg P a s t)),
+      Monogamous Q ∧ (Q.ins ++ Q.outs).Nodup := by
+    intro Q hQ
+    obtain ⟨t, ht, rfl⟩ := List.mem_map.1 hQ
+    obtain ⟨_, _, _, _, _, _, h7⟩ := genCorrect_imgs (hgen t ht)
+    refine ⟨h7.fwd_mono, ?_⟩
+    rw [List.nodup_append]
+    exact ⟨h7.fwd_mono.1, h7.fwd_mono.2.1, fun u hu w hw huw => h7.fwd_nopt u hu (huw ▸ hw)⟩
+  have compR : ∀ Q ∈ compsOf sf (fun a s t => strictOr B (revImg P a s t)),
+      Monogamous Q ∧ (Q.ins ++ Q.outs).Nodup := by
+    intro Q hQ
+    obtain ⟨t, ht, rfl⟩ := List.mem_map.1 hQ
+    obtain ⟨_, _, _, _, _, _, h7⟩ := genCorrect_imgs (hgen t ht)
+    refine ⟨h7.rev_mono, ?_⟩
+    rw [List.nodup_append]
+    exact ⟨h7.rev_mono.1, h7.rev_mono.2.1, fun u hu w hw huw => h7.rev_nopt u hu (huw ▸ hw)⟩
+  have hmono_r := mono hm compF compR
+  have msg : Monogamous sg.toPlain := monogamous_iso (C03.wfP wr) isg hmono_r
+  -- per-index facts
+  have gen : ∀ k (hk : k < sf.h.x.length), ∃ t : A1 × List O1 × List O1,
+      t.1 = sf.h.x[k] ∧ t.2.1.length = (sf.h.s.segs.getD k []).length ∧
+      t.2.2.length = (sf.h.t.segs.getD k []).length ∧
+      (compsOf sf (fun a s t => strictOr B (fwdImg P a s t))).getD k PDiag.empty =
+        (strictOr B (fwdImg P t.1 t.2.1 t.2.2)).toPlain ∧
+      (compsOf sf (fun a s t => strictOr B (revImg P a s t))).getD k PDiag.empty =
+        (strictOr B (revImg P t.1 t.2.1 t.2.2)).toPlain ∧
+      (strictOr B (fwdImg P t.1 t.2.1 t.2.2)).wf = true ∧
+      (strictOr B (revImg P t.1 t.2.1 t.2.2)).wf = true ∧
+      GenFacts B P semD sem2 t.1 t.2.1 t.2.2 (strictOr B (fwdImg P t.1 t.2.1 t.2.2))
+        (strictOr B (revImg P t.1 t.2.1 t.2.2)) := by
+    intro k hk
+    obtain ⟨t, ht, e1, e2, e3, e4, e5⟩ := idx k hk
+    obtain ⟨_, w1, s1, _, w2, s2, h7⟩ := genCorrect_imgs (hgen t ht)
+    exact ⟨t, e1, e2, e3, e4, e5, ((C10.toStrict_quotient B hB _ w1).2.2 _ s1).1,
+      ((C10.toStrict_quotient B hB _ w2).2.2 _ s2).1, h7⟩
+  have kMk : ∀ k (hk : k < sf.h.x.length),
+      (sf.h.x.map (fun x => (P.residual x).length)).getD k 0 = (P.residual sf.h.x[k]).length := by
+    intro k hk
+    simp [List.getD_eq_getElem?_getD, List.getElem?_eq_getElem hk]
+  have lenMk : ∀ (T : Type) (M : List T) k,
+      M.length = (sf.h.x.map (fun x => (P.residual x).length)).sum →
+      ((splitSegs (sf.h.x.map (fun x => (P.residual x).length)) M).getD k []).length =
+        (sf.h.x.map (fun x => (P.residual x).length)).getD k 0 := fun T M k hM =>
+    splitSegs_getD_length _ _ (Nat.le_of_eq hM.symm) k
+  -- component interface sizes
+  have sizes : ∀ k (hk : k < sf.h.x.length) (t : A1 × List O1 × List O1),
+      t.1 = sf.h.x[k] → t.2.1.length = (sf.h.s.segs.getD k []).length →
+      t.2.2.length = (sf.h.t.segs.getD k []).length →
+      (strictOr B (fwdImg P t.1 t.2.1 t.2.2)).wf = true →
+      (strictOr B (revImg P t.1 t.2.1 t.2.2)).wf = true →
+      GenFacts B P semD sem2 t.1 t.2.1 t.2.2 (strictOr B (fwdImg P t.1 t.2.1 t.2.2))
+        (strictOr B (revImg P t.1 t.2.1 t.2.2)) →
+      (strictOr B (fwdImg P t.1 t.2.1 t.2.2)).toPlain.ins.length =
+        (sf.h.s.segs.getD k []).length ∧
+      (strictOr B (fwdImg P t.1 t.2.1 t.2.2)).toPlain.outs.length =
+        (sf.h.t.segs.getD k []).length +
+          (sf.h.x.map (fun x => (P.residual x).length)).getD k 0 ∧
+      (strictOr B (revImg P t.1 t.2.1 t.2.2)).toPlain.ins.length =
+        (sf.h.x.map (fun x => (P.residual x).length)).getD k 0 +
+          (sf.h.t.segs.getD k []).length ∧
+      (strictOr B (revImg P t.1 t.2.1 t.2.2)).toPlain.outs.length =
+        (sf.h.s.segs.getD k []).length := by
+    intro k hk t e1 e2 e3 w1 w2 h7
+    rw [kMk k hk, ← e1, ← e2, ← e3]
+    refine ⟨?_, ?_, ?_, ?_⟩
+    · rw [C03.plain_ins_length w1 h7.fwd_src, lenF]
+    · rw [C03.plain_outs_length w1 h7.fwd_tgt, List.length_append, lenF]
+    · rw [C03.plain_ins_length w2 h7.rev_src, List.length_append, lenR]
+    · rw [C03.plain_outs_length w2 h7.rev_tgt, lenR]
+  -- the hyperedges of `sf`, by index
+  have edgeAt : ∀ k (hk : k < sf.h.x.length),
+      sf.toPlain.edges[k]? = some (⟨sf.h.x[k], sf.h.s.segs.getD k [], sf.h.t.segs.getD k []⟩ :
+        PEdge A1) := by
+    intro k hk
+    have h1 : k < sf.h.s.segs.length := by rw [IC.segs_length, hWf.h.slen]; exact hk
+    have h2 : k < sf.h.t.segs.length := by rw [IC.segs_length, hWf.h.tlen]; exact hk
+    show sf.h.toPlainEdges[k]? = _
+    rw [HG.toPlainEdges_getElem?]
+    simp [List.getElem?_eq_getElem hk, List.getElem?_eq_getElem h1, List.getElem?_eq_getElem h2,
+      List.getD_eq_getElem?_getD]
+  have edgeOf : ∀ e ∈ sf.toPlain.edges, ∃ k, ∃ hk : k < sf.h.x.length,
+      e = ⟨sf.h.x[k], sf.h.s.segs.getD k [], sf.h.t.segs.getD k []⟩ := by
+    intro e he
+    obtain ⟨k, hk, rfl⟩ := List.getElem_of_mem he
+    have hk' : k < sf.h.x.length := by
+      rw [← HG.toPlainEdges_length sf.h hWf.h]; exact hk
+    refine ⟨k, hk', ?_⟩
+    have := edgeAt k hk'
+    rw [List.getElem?_eq_getElem hk] at this
+    exact Option.some.inj this
+  -- arity discipline of the result
+  have har : C16.ArityOK sg sem2 := by
+    have hd : Den (arΦ sem2) r.toPlain
+        (List.replicate sf.s.table.length () ++ List.replicate sf.t.table.length ())
+        (List.replicate sf.t.table.length () ++ List.replicate sf.s.table.length ()) := by
+      refine (den Unit (arΦ sem2) _ _ _ _ (by simp) (by simp) (by simp) (by simp)).2
+        ⟨fun _ => (), fun _ => (),
+          List.replicate (sf.h.x.map (fun x => (P.residual x).length)).sum (),
+          unit_list_eq _ _ (by simp), unit_list_eq _ _ (by simp), unit_list_eq _ _ (by simp),
+          unit_list_eq _ _ (by simp), by simp, fun k hk => ?_⟩
+      obtain ⟨t, e1, e2, e3, e4, e5, w1, w2, h7⟩ := gen k hk
+      obtain ⟨s1, s2, s3, s4⟩ := sizes k hk t e1 e2 e3 w1 w2 h7
+      rw [e4, e5]
+      refine ⟨den_ar_of_arityOK _ sem2 h7.fwd_ar _ _ ?_ ?_,
+        den_ar_of_arityOK _ sem2 h7.rev_ar _ _ ?_ ?_⟩
+      · rw [List.length_map, s1]
+      · rw [List.length_append, List.length_map, lenMk Unit _ k (by simp), s2]
+      · rw [List.length_append, List.length_map, lenMk Unit _ k (by simp), s3]
+      · rw [List.length_map, s4]
+    exact arityOK_of_den sg sem2 ((den_iso (C03.wfP wr) isg _ _).1 hd)
+  -- acyclicity of the result: a ranking
+  have hopac : C16.OpAcyclic sg := by
+    obtain ⟨ν, hν⟩ := exists_rank_of_acyclic hac
+    let Pr : PDiag O2 A2 → Nat → Prop := fun Q K => ∀ (a b : List Nat) (L : Nat),
+      a.length = Q.ins.length → b.length = Q.outs.length → (∀ x ∈ a, x ≤ L) →
+      (∀ y ∈ b, L + K < y) → Den rankΦ Q a b
+    have hPmono : ∀ Q K K', K ≤ K' → Pr Q K → Pr Q K' :=
+      fun Q K K' hK h a b L ha hb h1 h2 => h a b L ha hb h1 (fun y hy => by
+        have := h2 y hy; omega)
+    have slackOf : ∀ C : OHG O2 A2, C.wf = true → Monogamous C.toPlain → Acyclic C.toPlain →
+        (C.toPlain.ins ++ C.toPlain.outs).Nodup → ∃ K, Pr C.toPlain K := by
+      intro C wC mC aC nC
+      have nW := monogamous_singleWriter (C03.wfP wC) mC
+      have nR : (readers C.toPlain).Nodup :=
+        (monogamous_readers_perm (C03.wfP wC) mC).nodup_iff.2 List.nodup_range
+      exact den_rank_of_component (C03.wfP wC) aC nC
+        (fun e he v hv hi =>
+          (List.nodup_append.1 nW).2.2 v hi v (List.mem_flatMap.2 ⟨e, he, hv⟩) rfl)
+        (fun e he v hv ho =>
+          (List.nodup_append.1 nR).2.2 v ho v (List.mem_flatMap.2 ⟨e, he, hv⟩) rfl)
+    obtain ⟨KF, hKF⟩ := exists_uniform_slack
+      (compsOf sf (fun a s t => strictOr B (fwdImg P a s t))) Pr hPmono (by
+        intro Q hQ
+        have hnd := (compF Q hQ).2
+        obtain ⟨t, ht, rfl⟩ := List.mem_map.1 hQ
+        obtain ⟨_, w1, s1, _, _, _, h7⟩ := genCorrect_imgs (hgen t ht)
+        exact slackOf _ ((C10.toStrict_quotient B hB _ w1).2.2 _ s1).1 h7.fwd_mono h7.fwd_acyc hnd)
+    obtain ⟨KR, hKR⟩ := exists_uniform_slack
+      (compsOf sf (fun a s t => strictOr B (revImg P a s t))) Pr hPmono (by
+        intro Q hQ
+        have hnd := (compR Q hQ).2
+        obtain ⟨t, ht, rfl⟩ := List.mem_map.1 hQ
+        obtain ⟨_, _, _, _, w2, s2, h7⟩ := genCorrect_imgs (hgen t ht)
+        exact slackOf _ ((C10.toStrict_quotient B hB _ w2).2.2 _ s2).1 h7.rev_mono h7.rev_acyc hnd)
+    have lenCF : (compsOf sf (fun a s t => strictOr B (fwdImg P a s t))).length = sf.h.x.length := by
+      unfold compsOf; rw [List.length_map, lenTr]
+    have lenCR : (compsOf sf (fun a s t => strictOr B (revImg P a s t))).length = sf.h.x.length := by
+      unfold compsOf; rw [List.length_map, lenTr]
+    have hwfP := C03.wfP hsfwf
+    obtain ⟨_, _, hedges⟩ := Eval.pdiag_wf_unpack hwfP
+    have hlt : ∀ k, k < sf.h.x.length → ∀ v,
+        v ∈ sf.h.s.segs.getD k [] ∨ v ∈ sf.h.t.segs.getD k [] → v < sf.h.w.length := by
+      intro k hk v hv
+      have he := List.mem_of_getElem? (edgeAt k hk)
+      rcases hv with hv | hv
+      · exact (hedges _ he).1 v hv
+      · exact (hedges _ he).2 v hv
+    obtain ⟨fv, rv, big, L, L', hrk⟩ := rank_assignment sf.h.x.length
+      (fun k => sf.h.s.segs.getD k []) (fun k => sf.h.t.segs.getD k []) ν
+      (listMax ((List.range sf.h.w.length).map (fun v => ν v + 1))) (max KF KR)
+      (fun k hk v hv => le_listMax (List.mem_map.2 ⟨v, List.mem_range.2 (hlt k hk v hv), rfl⟩))
+      (fun k hk u hu w hw => hν _ (List.mem_of_getElem? (edgeAt k hk)) _
+        (List.mem_map.2 ⟨u, hu, rfl⟩) _ (List.mem_map.2 ⟨w, hw, rfl⟩))
+    have hd : Den rankΦ r.toPlain (sf.s.table.map fv ++ sf.t.table.map rv)
+        (sf.t.table.map fv ++ sf.s.table.map rv) := by
+      refine (den Nat rankΦ _ _ _ _ (by simp) (by simp) (by simp) (by simp)).2
+        ⟨fv, rv, List.replicate (sf.h.x.map (fun x => (P.residual x).length)).sum big,
+          rfl, rfl, rfl, rfl, by simp, fun k hk => ?_⟩
+      obtain ⟨t, e1, e2, e3, e4, e5, w1, w2, h7⟩ := gen k hk
+      obtain ⟨s1, s2, s3, s4⟩ := sizes k hk t e1 e2 e3 w1 w2 h7
+      obtain ⟨r1, r2, r3, r4, r5, r6⟩ := hrk k hk
+      have hMk : ∀ y ∈ (splitSegs (sf.h.x.map (fun x => (P.residual x).length))
+          (List.replicate (sf.h.x.map (fun x => (P.residual x).length)).sum big)).getD k [],
+          y = big := fun y hy => List.eq_of_mem_replicate (mem_splitSegs_getD _ _ _ _ hy)
+      refine ⟨?_, ?_⟩
+      · refine hPmono _ _ _ (Nat.le_max_left KF KR)
+          (hKF _ (getD_mem _ k PDiag.empty (lenCF ▸ hk))) _ _ (L k) ?_ ?_ r1 ?_
+        · rw [e4, List.length_map, s1]
+        · rw [e4, List.length_append, List.length_map, lenMk Nat _ k (by simp), s2]
+        · intro y hy
+          rcases List.mem_append.1 hy with h1 | h1
+          · exact r2 y h1
+          · rw [hMk y h1]; exact r3
+      · refine hPmono _ _ _ (Nat.le_max_right KF KR)
+          (hKR _ (getD_mem _ k PDiag.empty (lenCR ▸ hk))) _ _ (L' k) ?_ ?_ ?_ r6
+        · rw [e5, List.length_append, List.length_map, lenMk Nat _ k (by simp), s3]
+        · rw [e5, List.length_map, s4]
+        · intro y hy
+          rcases List.mem_append.1 hy with h1 | h1
+          · rw [hMk y h1]; exact r4
+          · exact r5 y h1
+    obtain ⟨lab, hlab, _, _⟩ := (den_iso (C03.wfP wr) isg _ _).1 hd
+    exact opAcyclic_of_acyclic sg wsg (acyclic_of_rank hlab)
+  -- evaluation of the result
+  have : Inhabited R := ⟨0⟩
+  have hsw := monogamous_singleWriter (C03.wfP wsg) msg
+  have hsgs : sg.s.table.length = a.length + b.length := by
+    obtain ⟨π, _, _, _, _, _, hi, _⟩ := isg
+    have h1 : sg.s.table.length = r.toPlain.ins.length := by
+      show sg.toPlain.ins.length = _
+      rw [hi, List.length_map]
+    rw [h1, C03.plain_ins_length wr tr.2.1]
+    simp
+  obtain ⟨outs, val, hev, hval, houts⟩ := C16.eval_spec B hB sg wsg sem2 (0 : R) (x ++ dy) hopac hsw
+    har (by rw [List.length_append, hx, hdy, hsgs])
+  have hdsg : Den (valΦ sem2) sg.toPlain (x ++ dy) outs := ⟨val, hval.ops, hval.ins, houts.symm⟩
+  have hdr := (den_iso (C03.wfP wr) isg _ _).2 hdsg
+  have louts : outs.length = b.length + a.length := by
+    rw [(den_length hdr).2, C03.plain_outs_length wr tr.2.2]
+    simp
+  rw [← List.take_append_drop b.length outs] at hdr
+  obtain ⟨fv, rv, M, i1, i2, i3, i4, hM, hk⟩ := (den R (valΦ sem2) x dy (outs.take b.length)
+    (outs.drop b.length) (by rw [hx, la]) (by rw [List.length_drop, louts, la]; omega)
+    (by rw [List.length_take, louts, lb]; omega) (by rw [hdy, lb])).1 hdr
+  -- what the valuation says at every hyperedge of the circuit
+  have edgeFacts : ∀ e ∈ sf.toPlain.edges,
+      (∀ v : List R, v.length = e.src.length →
+        (semD e.label (dualize (e.src.map fv) v)).map Dual.re = e.tgt.map fv) ∧
+      IsRevDeriv (semD e.label) (e.src.map fv) (e.tgt.map rv) (e.src.map rv) := by
+    intro e he
+    obtain ⟨k, hk', rfl⟩ := edgeOf e he
+    obtain ⟨t, e1, e2, e3, e4, e5, w1, w2, h7⟩ := gen k hk'
+    obtain ⟨s1, s2, s3, s4⟩ := sizes k hk' t e1 e2 e3 w1 w2 h7
+    obtain ⟨hdF, hdR⟩ := hk k hk'
+    rw [e4] at hdF
+    rw [e5] at hdR
+    have evF := (den_val_iff_eval B hB _ w1 h7.fwd_acyc h7.fwd_mono sem2 h7.fwd_ar (0 : R) _ _ (by
+      rw [List.length_map]; exact s1.symm)).1 hdF
+    have evR := (den_val_iff_eval B hB _ w2 h7.rev_acyc h7.rev_mono sem2 h7.rev_ar (0 : R) _ _ (by
+      rw [List.length_append, List.length_map, lenMk R M k hM]; exact s3.symm)).1 hdR
+    obtain ⟨y, m, g, hy1, hy2, hy3, hy4, hy5⟩ := h7.sem ((sf.h.s.segs.getD k []).map fv)
+      ((sf.h.t.segs.getD k []).map rv) (by rw [List.length_map, e2]) (by rw [List.length_map, e3])
+    rw [applyOf_eq] at hy1 hy3
+    rw [hy1] at evF
+    obtain ⟨ey, em⟩ := List.append_inj (Res.ok.inj evF) (by rw [hy2, List.length_map, e3])
+    rw [← em, hy3] at evR
+    have eg := Res.ok.inj evR
+    show (∀ v : List R, v.length = (sf.h.s.segs.getD k []).length →
+        (semD sf.h.x[k] (dualize ((sf.h.s.segs.getD k []).map fv) v)).map Dual.re =
+          (sf.h.t.segs.getD k []).map fv) ∧
+      IsRevDeriv (semD sf.h.x[k]) ((sf.h.s.segs.getD k []).map fv)
+        ((sf.h.t.segs.getD k []).map rv) ((sf.h.s.segs.getD k []).map rv)
+    rw [← e1, ← ey, ← eg]
+    exact ⟨fun v hv => hy4 v (by rw [List.length_map]; exact hv), hy5⟩
+  -- arity and real parts of the dual-number interpretation
+  have semFacts : ∀ e ∈ sf.toPlain.edges, ∀ X : List (Dual R), X.length = e.src.length →
+      (semD e.label X).length = e.tgt.length ∧
+      (semD e.label X).map Dual.re =
+        (semD e.label (dualize (X.map Dual.re) ((X.map Dual.re).map (fun _ => 0)))).map Dual.re := by
+    intro e he X hX
+    obtain ⟨k, hk', rfl⟩ := edgeOf e he
+    obtain ⟨t, e1, e2, e3, e4, e5, w1, w2, h7⟩ := gen k hk'
+    obtain ⟨y, m, g, hy1, hy2, hy3, hy4, hy5⟩ := h7.sem (X.map Dual.re)
+      (List.replicate t.2.2.length 0) (by rw [List.length_map, e2]; exact hX) (by simp)
+    have h1 := hy4 (X.map Dual.eps) (by simp)
+    rw [dualize_re_eps] at h1
+    have h2 := hy4 ((X.map Dual.re).map (fun _ => 0)) (by simp)
+    show (semD sf.h.x[k] X).length = (sf.h.t.segs.getD k []).length ∧
+      (semD sf.h.x[k] X).map Dual.re = (semD sf.h.x[k] _).map Dual.re
+    rw [← e1, h1, h2]
+    refine ⟨?_, rfl⟩
+    have := congrArg List.length h1
+    rw [List.length_map] at this
+    rw [this, hy2, e3]
+  obtain ⟨c1, c2⟩ := twoPass_core B hB sf hsfwf hac hm semD
+    (fun a xs => (semD a (dualize xs (xs.map (fun _ => 0)))).map Dual.re)
+    (fun e he args hargs => (semFacts e he args hargs).1)
+    (fun e he X hX => (semFacts e he X hX).2)
+    x dy (by rw [hx, la]) fv rv i1
+    (fun e he => by
+      have := (edgeFacts e he).1 ((e.src.map fv).map (fun _ => 0)) (by simp)
+      exact this.symm)
+    i2 (fun e he => (edgeFacts e he).2)
+  refine ⟨LaxStrict.unpack r, sg, outs.take b.length, outs.drop b.length, hmap, hsg', msg, ?_, ?_,
+    ?_, ?_⟩
+  · rw [applyOf_eq, hev, List.take_append_drop]
+  · intro v hv
+    rw [← i3]
+    exact c1 v hv
+  · rw [← i4, List.length_map, la, hx]
+  · rw [← i4]
+    exact c2
+
+end final
+
+/-! ## 9. an instance: the reverse-derivative optic of multiplication -/
+
+section inst
+variable {R : Type}
+
+/-- the signature of polynomial circuits -/
+inductive Poly (R : Type) where
+  | add | mul | neg | copy | discard
+  | const (k : R)
+
+section
+variable [CommRing R]
+
+/-- dual-number interpretation -/
+def polySemD : Poly R → List (Dual R) → List (Dual R)
+  | .add => addD
+  | .mul => mulD
+  | .neg => negD
+  | .copy => copyD
+  | .discard => discardD
+  | .const k => constD k
+
+/-- interpretation over the ring -/
+def polySem : Poly R → List R → List R
+  | .add, [a, b] => [a + b]
+  | .mul, [a, b] => [a * b]
+  | .neg, [a] => [-a]
+  | .copy, [a] => [a, a]
+  | .const k, _ => [k]
+  | _, _ => []
+
+end
+
+/-- forward image of `mul`: copy both arguments, multiply one pair of copies, keep the other pair
+    as residual: `(x, y) ↦ (x·y, x, y)` -/
+def mulF : LOHG Unit (Poly R) :=
+  ⟨[0, 1], [6, 3, 5], ⟨List.replicate 7 (), [.copy, .copy, .mul],
+    [⟨[0], [2, 3]⟩, ⟨[1], [4, 5]⟩, ⟨[2, 4], [6]⟩], ([], [])⟩⟩
+
+/-- reverse image of `mul`: `(x, y, dz) ↦ (y·dz, x·dz)` -/
+def mulR : LOHG Unit (Poly R) :=
+  ⟨[0, 1, 2], [5, 6], ⟨List.replicate 7 (), [.copy, .mul, .mul],
+    [⟨[2], [3, 4]⟩, ⟨[1, 3], [5]⟩, ⟨[0, 4], [6]⟩], ([], [])⟩⟩
+
+/-- the lax optic (only `mul` has images in this instance) -/
+def mulOptic : LOptic Unit (Poly R) Unit (Poly R) where
+  fwdObject := fun _ => [()]
+  revObject := fun _ => [()]
+  fwdOperation := fun a _ _ => match a with
+    | .mul => .ok mulF
+    | _ => .none
+  revOperation := fun a _ _ => match a with
+    | .mul => .ok mulR
+    | _ => .none
+  residual := fun a => match a with
+    | .mul => [(), ()]
+    | _ => []
+
+theorem mulF_wf : (mulF : LOHG Unit (Poly R)).wf = true := rfl
+theorem mulR_wf : (mulR : LOHG Unit (Poly R)).wf = true := rfl
+
+theorem mulF_plain : (LaxStrict.pack (mulF : LOHG Unit (Poly R))).toPlain =
+    ⟨List.replicate 7 (), [⟨.copy, [0], [2, 3]⟩, ⟨.copy, [1], [4, 5]⟩, ⟨.mul, [2, 4], [6]⟩],
+      [0, 1], [6, 3, 5]⟩ := rfl
+
+theorem mulR_plain : (LaxStrict.pack (mulR : LOHG Unit (Poly R))).toPlain =
+    ⟨List.replicate 7 (), [⟨.copy, [2], [3, 4]⟩, ⟨.mul, [1, 3], [5]⟩, ⟨.mul, [0, 4], [6]⟩],
+      [0, 1, 2], [5, 6]⟩ := rfl
+
+theorem mulF_mono : Monogamous (LaxStrict.pack (mulF : LOHG Unit (Poly R))).toPlain := by
+  rw [mulF_plain]
+  apply monogamous_of_perm
+  · show ([0, 1, 2, 3, 4, 5, 6] : List Nat).Perm (List.range 7)
+    decide
+  · show ([6, 3, 5, 0, 1, 2, 4] : List Nat).Perm (List.range 7)
+    decide
+
+theorem mulR_mono : Monogamous (LaxStrict.pack (mulR : LOHG Unit (Poly R))).toPlain := by
+  rw [mulR_plain]
+  apply monogamous_of_perm
+  · show ([0, 1, 2, 3, 4, 5, 6] : List Nat).Perm (List.range 7)
+    decide
+  · show ([5, 6, 2, 1, 3, 0, 4] : List Nat).Perm (List.range 7)
+    decide
+
+theorem mulF_acyclic : Acyclic (LaxStrict.pack (mulF : LOHG Unit (Poly R))).toPlain := by
+  rw [mulF_plain]
+  apply acyclic_of_rank (rk := fun v => [0, 0, 1, 1, 1, 1, 2].getD v 0)
+  intro e he
+  simp only [List.mem_cons, List.not_mem_nil, or_false] at he
+  rcases he with rfl | rfl | rfl <;> intro x hx y hy <;> simp at hx hy <;> omega
+
+theorem mulR_acyclic : Acyclic (LaxStrict.pack (mulR : LOHG Unit (Poly R))).toPlain := by
+  rw [mulR_plain]
+  apply acyclic_of_rank (rk := fun v => [0, 0, 0, 1, 1, 2, 2].getD v 0)
+  intro e he
+  simp only [List.mem_cons, List.not_mem_nil, or_false] at he
+  rcases he with rfl | rfl | rfl <;> intro x hx y hy <;> simp at hx hy <;> omega
+
+section
+variable [CommRing R]
+
+omit [CommRing R] in
+theorem len1' {v : List R} (h : v.length = 1) : ∃ p, v = [p] := by
+  match v, h with
+  | [p], _ => exact ⟨p, rfl⟩
+
+omit [CommRing R] in
+theorem len2' {v : List R} (h : v.length = 2) : ∃ p q, v = [p, q] := by
+  match v, h with
+  | [p, q], _ => exact ⟨p, q, rfl⟩
+
+theorem mulF_arity : C16.ArityOK (LaxStrict.pack (mulF : LOHG Unit (Poly R))) polySem := by
+  intro e he args hargs
+  rw [mulF_plain] at he
+  simp only [List.mem_cons, List.not_mem_nil, or_false] at he
+  rcases he with rfl | rfl | rfl
+  · obtain ⟨p, rfl⟩ := len1' hargs; rfl
+  · obtain ⟨p, rfl⟩ := len1' hargs; rfl
+  · obtain ⟨p, q, rfl⟩ := len2' hargs; rfl
+
+theorem mulR_arity : C16.ArityOK (LaxStrict.pack (mulR : LOHG Unit (Poly R))) polySem := by
+  intro e he args hargs
+  rw [mulR_plain] at he
+  simp only [List.mem_cons, List.not_mem_nil, or_false] at he
+  rcases he with rfl | rfl | rfl
+  · obtain ⟨p, rfl⟩ := len1' hargs; rfl
+  · obtain ⟨p, q, rfl⟩ := len2' hargs; rfl
+  · obtain ⟨p, q, rfl⟩ := len2' hargs; rfl
+
+omit [CommRing R] in
+theorem mul_toStrict (d : LOHG Unit (Poly R)) (hwf : d.wf = true)
+    (hq : d.hypergraph.quotient = ([], [])) :
+    LOHG.toStrict vecBackend d = .ok (LaxStrict.pack d) ∧ (LaxStrict.pack d).wf = true := by
+  obtain ⟨h1, h2, _⟩ := C10.toStrict_spec vecBackend C10.vecBackend_idCC d hwf hq
+  exact ⟨h1, h2⟩
+
+/-- **the hypotheses on generators are satisfiable**: `mul` with its standard forward and reverse
+    images (copies, multiplications) -/
+theorem mul_genCorrect :
+    GenCorrect vecBackend (mulOptic : LOptic Unit (Poly R) Unit (Poly R)) polySemD polySem
+      .mul [(), ()] [()] := by
+  obtain ⟨tsF, wF⟩ := mul_toStrict (mulF : LOHG Unit (Poly R)) mulF_wf rfl
+  obtain ⟨tsR, wR⟩ := mul_toStrict (mulR : LOHG Unit (Poly R)) mulR_wf rfl
+  refine ⟨mulF, mulR, LaxStrict.pack mulF, LaxStrict.pack mulR, rfl, mulF_wf, tsF, rfl, mulR_wf, tsR,
+    ⟨rfl, rfl, rfl, rfl, mulF_mono, mulR_mono, mulF_acyclic, mulR_acyclic, ?_, ?_, mulF_arity,
+      mulR_arity, ?_⟩⟩
+  · show ∀ v ∈ ([0, 1] : List Nat), v ∉ ([6, 3, 5] : List Nat)
+    decide
+  · show ∀ v ∈ ([0, 1, 2] : List Nat), v ∉ ([5, 6] : List Nat)
+    decide
+  · intro x dy hx hdy
+    obtain ⟨p, q, rfl⟩ := len2' hx
+    obtain ⟨dz, rfl⟩ := len1' hdy
+    refine ⟨[p * q], [p, q], [q * dz, p * dz], ?_, rfl, ?_, ?_, ?_⟩
+    · rw [applyOf_eq]
+      refine (den_val_iff_eval vecBackend vecBackend_lawful _ wF mulF_acyclic mulF_mono polySem
+        mulF_arity (0 : R) _ _ rfl).1 ?_
+      rw [mulF_plain]
+      refine ⟨fun v => [p, q, p, p, q, q, p * q].getD v 0, ?_, rfl, rfl⟩
+      intro e he
+      simp only [List.mem_cons, List.not_mem_nil, or_false] at he
+      rcases he with rfl | rfl | rfl <;> rfl
+    · rw [applyOf_eq]
+      refine (den_val_iff_eval vecBackend vecBackend_lawful _ wR mulR_acyclic mulR_mono polySem
+        mulR_arity (0 : R) _ _ rfl).1 ?_
+      rw [mulR_plain]
+      refine ⟨fun v => [p, q, dz, dz, dz, q * dz, p * dz].getD v 0, ?_, rfl, rfl⟩
+      intro e he
+      simp only [List.mem_cons, List.not_mem_nil, or_false] at he
+      rcases he with rfl | rfl | rfl <;> rfl
+    · intro v hv
+      obtain ⟨a, b, rfl⟩ := len2' hv
+      rfl
+    · exact (mul_lens_correct p q).rev_eq [dz] rfl
+
+/-- the circuit `(x, y) ↦ x·y` -/
+def mulCircuit : LOHG Unit (Poly R) :=
+  ⟨[0, 1], [2], ⟨[(), (), ()], [.mul], [⟨[0, 1], [2]⟩], ([], [])⟩⟩
+
+omit [CommRing R] in
+theorem mulCircuit_plain : (LaxStrict.pack (mulCircuit : LOHG Unit (Poly R))).toPlain =
+    ⟨[(), (), ()], [⟨.mul, [0, 1], [2]⟩], [0, 1], [2]⟩ := rfl
+
+/-- **the hypotheses of `rev_correct_corrected` are satisfiable by a non-trivial circuit** (one
+    multiplication, two inputs, non-empty residual), over every commutative ring, on the Vec
+    backend; the theorem then yields: the adapted optic of `(x, y) ↦ x·y` is defined, monogamous,
+    evaluable, and on `(p, q, dz)` returns `(f(p, q), Jᵀ·dz)` -/
+example (p q dz : R) :
+    ∃ (g : LOHG Unit (Poly R)) (sg : OHG Unit (Poly R)) (y gx : List R),
+      LOptic.mapAdapted vecBackend mulOptic mulCircuit = .ok g ∧
+      LOHG.toStrict vecBackend g = .ok sg ∧ Monogamous sg.toPlain ∧
+      Graph.eval vecBackend sg (0 : R) ([p, q] ++ [dz]) (applyOf polySem) = .ok (y ++ gx) ∧
+      (∀ v : List R, v.length = [p, q].length →
+        (evalOr vecBackend (LaxStrict.pack mulCircuit) (0 : Dual R) polySemD
+          (dualize [p, q] v)).map Dual.re = y) ∧
+      gx.length = [p, q].length ∧
+      IsRevDeriv (evalOr vecBackend (LaxStrict.pack mulCircuit) (0 : Dual R) polySemD) [p, q] [dz]
+        gx := by
+  obtain ⟨ts, _⟩ := mul_toStrict (mulCircuit : LOHG Unit (Poly R)) rfl rfl
+  refine rev_correct_corrected R Unit (Poly R) Unit (Poly R) vecBackend vecBackend_lawful mulOptic
+    polySemD polySem (fun _ => ⟨rfl, rfl⟩) mulCircuit (LaxStrict.pack mulCircuit) rfl ts ?_ ?_ ?_
+    [(), ()] [()] rfl rfl [p, q] [dz] rfl rfl
+  · rw [mulCircuit_plain]
+    apply acyclic_of_rank (rk := fun v => [0, 0, 1].getD v 0)
+    intro e he
+    simp only [List.mem_cons, List.not_mem_nil, or_false] at he
+    subst he
+    intro x hx y hy
+    simp at hx hy
+    omega
+  · rw [mulCircuit_plain]
+    apply monogamous_of_perm
+    · show ([0, 1, 2] : List Nat).Perm (List.range 3)
+      decide
+    · show ([2, 0, 1] : List Nat).Perm (List.range 3)
+      decide
+  · intro t ht
+    have : C12.opTriples (C12.opsOf (LaxStrict.pack (mulCircuit : LOHG Unit (Poly R)))) =
+        [(.mul, [(), ()], [()])] := rfl
+    rw [this] at ht
+    simp only [List.mem_cons, List.not_mem_nil, or_false] at ht
+    subst ht
+    exact mul_genCorrect
+
+end
+
+end inst
+
+/-! ## 10. discrepancies of `rev_correct_statement` as written in `Props/C14.lean` -/
+
+section discrepancy
+variable {R : Type} [CommRing R] {O1 A1 O2 A2 : Type}
+
+/-- **`GeneratorsCorrect` is (almost) unsatisfiable.**  It quantifies over ALL source and target
+    types `s`, `t` of a generator `a`, but the real part of `semD a` on a given input cannot have
+    as many entries as `t` has for every `t`: as soon as there is one generator, every object has
+    an EMPTY forward image — there is no wire carrying a ring element, and no polynomial-circuit
+    optic satisfies the hypothesis. -/
+theorem generatorsCorrect_degenerate [DecidableEq O2] (B : Backend) (P : LOptic O1 A1 O2 A2)
+    (semD : A1 → List (Dual R) → List (Dual R)) (sem2 : A2 → List R → List R)
+    (h : GeneratorsCorrect B P semD sem2) (a : A1) (o : O1) : P.fwdObject o = [] := by
+  obtain ⟨_, _, _, _, y0, _, _, _, _, _, _, _, hy0, _, _, _, h0, _⟩ := h a [] [] [] [] rfl rfl
+  obtain ⟨_, _, _, _, y1, _, _, _, _, _, _, _, hy1, _, _, _, h1, _⟩ :=
+    h a [] [o] [] (List.replicate ([o].flatMap P.revObject).length 0) rfl (by simp)
+  have e0 := h0 [] rfl
+  have e1 := h1 [] rfl
+  rw [e0] at e1
+  rw [e1] at hy0
+  rw [hy0] at hy1
+  have : (P.fwdObject o).length = 0 := by simpa using hy1.symm
+  exact List.eq_nil_of_length_eq_zero this
+
+end discrepancy
+
+/-! ## 11. the monogamy clause of the typing part (`adapt_monogamous_statement`) -/
+
+theorem pdPlain_pdPlain {O A : Type} (k k' : Nat) (c : PDiag O A) (hk : k ≤ c.ins.length)
+    (hk' : k' ≤ c.outs.length) : pdPlain k k' (pdPlain k k' c) = c := by
+  have l1 : (c.ins.take k).length = k := by rw [List.length_take]; omega
+  have l2 : (c.outs.take k').length = k' := by rw [List.length_take]; omega
+  show (⟨c.nodes, c.edges, (c.ins.take k ++ c.outs.drop k').take k ++
+      (c.outs.take k' ++ c.ins.drop k).drop k',
+    (c.outs.take k' ++ c.ins.drop k).take k' ++ (c.ins.take k ++ c.outs.drop k').drop k⟩ :
+      PDiag O A) = c
+  rw [List.take_left' l1, List.drop_left' l2, List.take_left' l2, List.drop_left' l1,
+    List.take_append_drop, List.take_append_drop]
+
+/-- **the adapted optic image of a batch is monogamous** as soon as the forward and the reverse
+    image of the batch are: the statement left open in `Props/C14Optic.lean`
+    (`adapt_monogamous_statement`), for segments of arbitrary sizes and every lawful backend.
+    The adapted image is, up to isomorphism, the lens composite
+    `c = (fwd ; interleave†) ⊗ id ; id ⊗ (cointerleave ; rev)`. -/
+theorem adapt_monogamous : adapt_monogamous_statement := by
+  intro O1 A1 O2 A2 _ B hB P ops h mfwd mrev r hr
+  -- the regrouped object images
+  obtain ⟨bfb, hbfb, bfbV, bfbValid, bfbLen, bfbSegs⟩ :=
+    C08.flatmapSources_specL ops.b h.fb h.b_valid h.fb_valid h.len_fb.symm
+  obtain ⟨brb, hbrb, brbV, brbValid, brbLen, brbSegs⟩ :=
+    C08.flatmapSources_specL ops.b h.rb h.b_valid h.rb_valid h.len_rb.symm
+  obtain ⟨fwdIl0, e1, t1, x1, p1, _, m1, _⟩ := il_sem (A := A2) bfb h.m bfbValid h.m_valid
+    (bfbLen.trans h.len_m.symm)
+  obtain ⟨revCo, e2, t2, x2, p2, m2, _, _⟩ := il_sem (A := A2) h.m brb h.m_valid brbValid
+    (h.len_m.trans brbLen.symm)
+  rw [bfbV, bfbSegs] at t1
+  rw [brbV, brbSegs] at t2
+  obtain ⟨iFb, e5, t5, x5, _, _, _, m5⟩ := identity_sem (A := A2) h.fb.values
+  obtain ⟨iRb, e6, t6, x6, _, _, _, m6⟩ := identity_sem (A := A2) h.rb.values
+  have tfwd : HasType h.fwd h.fa.values (interleave (groupSegs ops.b h.fb) h.m.segsL) :=
+    ⟨h.fwd_wf, h.fwd_src, h.fwd_tgt⟩
+  have trev : HasType h.rev (interleave h.m.segsL (groupSegs ops.b h.rb)) h.ra.values :=
+    ⟨h.rev_wf, h.rev_src, h.rev_tgt⟩
+  obtain ⟨l1, e7, t7, x7, _, _, m7⟩ := compose_sem B hB tfwd t1.dagger
+  obtain ⟨lhs, e8, t8, x8, _, _, m8⟩ := tensor_sem t7 t6
+  obtain ⟨r1, e9, t9, x9, _, _, m9⟩ := compose_sem B hB t2 trev
+  obtain ⟨rhs, e10, t10, x10, _, _, m10⟩ := tensor_sem t5 t9
+  rw [List.append_assoc] at t8
+  obtain ⟨c, e11, t11, x11, _, _, m11⟩ := compose_sem B hB t8 t10
+  have mc : Monogamous c.toPlain := m11 (m8 (m7 mfwd m1) m6) (m10 m5 (m9 m2 mrev))
+  obtain ⟨d, e12, td, dh, ds, dt⟩ := partialDagger_typed c h.fa h.fb h.ra h.rb _ _ _ _ t11 rfl rfl
+    rfl rfl
+  obtain ⟨il0, rhs2, e, fx, d1, d2, h0, h2, he, hfx, tfx, xfx, hd1, hd2, td2, xd2, id2⟩ :=
+    il_roundtrip B hB h.fa h.ra h.fb h.rb h.fa_valid h.ra_valid h.fb_valid h.rb_valid h.len_a
+      (h.len_fb.trans h.len_rb.symm) d td
+  have hmo : SOptic.mapOperations B P ops = .ok fx := by
+    unfold SOptic.mapOperations
+    simp only [h.fwd_eq, h.rev_eq, h.fa_eq, h.fb_eq, h.ra_eq, h.rb_eq, h.m_eq, hbfb, hbrb, e1, e2,
+      h0, h2, e5, e6, e7, e8, e9, e10, e11, e12, he, hfx, Res.ok_bind, Res.unwrap_ok]
+  rw [hr] at hmo
+  cases hmo
+  obtain ⟨res, eres, tres, rh, rs, rt⟩ := partialDagger_typed d2 h.fa h.fb h.rb h.ra _ _ _ _ td2 rfl
+    rfl rfl rfl
+  refine ⟨res, ?_, tres.1, tres.2.1, tres.2.2, ?_⟩
+  · unfold SOptic.adapt
+    simp only [h.fa_eq, h.fb_eq, h.ra_eq, h.rb_eq, h0, h2, hd1, hd2, Res.ok_bind, Res.unwrap_ok]
+    exact eres
+  · have wc : c.wf = true := (OHG.wf_iff c).2 t11.1
+    have wd2 : d2.wf = true := (OHG.wf_iff d2).2 td2.1
+    have hres : res.toPlain = pdPlain h.fa.values.length h.fb.values.length d2.toPlain := by
+      show (⟨res.h.w, res.h.toPlainEdges, res.s.table, res.t.table⟩ : PDiag O2 A2) = _
+      rw [rh, rs, rt]; rfl
+    have hd : d.toPlain = pdPlain h.fa.values.length h.fb.values.length c.toPlain := by
+      show (⟨d.h.w, d.h.toPlainEdges, d.s.table, d.t.table⟩ : PDiag O2 A2) = _
+      rw [dh, ds, dt]; rfl
+    have iso1 := iso_pdPlain h.fa.values.length h.fb.values.length id2
+    rw [hd, pdPlain_pdPlain _ _ _ (by
+      rw [C03.plain_ins_length wc t11.2.1, List.length_append]; omega) (by
+      rw [C03.plain_outs_length wc t11.2.2, List.length_append]; omega), ← hres] at iso1
+    have wres : res.toPlain.wf = true := C03.wfP ((OHG.wf_iff res).2 tres.1)
+    exact monogamous_iso (C03.wfP wc) (iso_symm wres iso1) mc
+
+/-- the hypotheses of `adapt_monogamous` are satisfiable: the witness optic and batch of
+    `Props/C14Optic.lean` (two operations of different arities, non-empty residuals) -/
+example : ∃ r d, SOptic.mapOperations vecBackend exP exOps = .ok r ∧
+    SOptic.adapt vecBackend exP r exOps.a.values exOps.b.values = .ok d ∧
+    Monogamous d.toPlain := by
+  obtain ⟨r, hr, _⟩ := optic_mapOperations_type vecBackend vecBackend_lawful exP exOps exOK
+  have m1 : Monogamous exOK.fwd.toPlain := by
+    apply monogamous_of_perm <;> decide
+  have m2 : Monogamous exOK.rev.toPlain := by
+    apply monogamous_of_perm <;> decide
+  obtain ⟨d, hd, _, _, _, hm⟩ := adapt_monogamous Nat Nat Nat Nat vecBackend vecBackend_lawful exP
+    exOps exOK m1 m2 r hr
+  exact ⟨r, d, hr, hd, hm⟩
+
+/-! ## 12. the semantic theorems on an instance -/
+
+section
+variable {R : Type} [CommRing R]
+
+/-- the hypotheses of `twoPass_correct` (and of `cotangent_exists_unique`) are satisfiable
+    non-trivially: the circuit `(x, y) ↦ x·y` with the multiplication lens; the theorem yields the
+    gradient `(q·dz, p·dz)` -/
+example (p q dz : R) :
+    IsRevDeriv (evalOr vecBackend (LaxStrict.pack (mulCircuit : LOHG Unit (Poly R))) (0 : Dual R)
+      (fun _ => mulD)) [p, q] [dz] [q * dz, p * dz] := by
+  obtain ⟨_, wf⟩ := mul_toStrict (mulCircuit : LOHG Unit (Poly R)) rfl rfl
+  have hac : Acyclic (LaxStrict.pack (mulCircuit : LOHG Unit (Poly R))).toPlain := by
+    rw [mulCircuit_plain]
+    apply acyclic_of_rank (rk := fun v => [0, 0, 1].getD v 0)
+    intro e he
+    simp only [List.mem_cons, List.not_mem_nil, or_false] at he
+    subst he
+    intro x hx y hy
+    simp at hx hy
+    omega
+  have hm : Monogamous (LaxStrict.pack (mulCircuit : LOHG Unit (Poly R))).toPlain := by
+    rw [mulCircuit_plain]
+    apply monogamous_of_perm
+    · show ([0, 1, 2] : List Nat).Perm (List.range 3)
+      decide
+    · show ([2, 0, 1] : List Nat).Perm (List.range 3)
+      decide
+  have hl : LensesCorrect (LaxStrict.pack (mulCircuit : LOHG Unit (Poly R))).toPlain
+      (fun _ => (mulLens : Lens R)) (fun _ => mulD) := by
+    rw [mulCircuit_plain]
+    intro e he x hx
+    simp only [List.mem_cons, List.not_mem_nil, or_false] at he
+    subst he
+    obtain ⟨a, b, rfl⟩ := len2' hx
+    exact ⟨mul_lens_correct a b, rfl⟩
+  have hval : IsValuation (LaxStrict.pack (mulCircuit : LOHG Unit (Poly R))).toPlain
+      (fwdOf (fun _ => (mulLens : Lens R))) (0 : R) [p, q] (fun v => [p, q, p * q].getD v 0) := by
+    rw [mulCircuit_plain]
+    refine ⟨rfl, ?_, ?_⟩
+    · intro e he
+      simp only [List.mem_cons, List.not_mem_nil, or_false] at he
+      subst he
+      rfl
+    · intro v hv hni hnt
+      exfalso
+      have hv' : v < 3 := hv
+      have h2 : v = 2 := by
+        have : v ≠ 0 := fun h => hni (by simp [h])
+        have : v ≠ 1 := fun h => hni (by simp [h])
+        omega
+      exact hnt ⟨.mul, [0, 1], [2]⟩ (by simp) (by simp [h2])
+  have hadj : IsCotangent (LaxStrict.pack (mulCircuit : LOHG Unit (Poly R))).toPlain
+      (fun _ => (mulLens : Lens R)) (fun v => [p, q, p * q].getD v 0)
+      (fun v => [q * dz, p * dz, dz].getD v 0) [dz] := by
+    rw [mulCircuit_plain]
+    refine ⟨rfl, ?_⟩
+    intro e he
+    simp only [List.mem_cons, List.not_mem_nil, or_false] at he
+    subst he
+    rfl
+  exact (twoPass_correct vecBackend vecBackend_lawful _ wf hac hm (fun _ => (mulLens : Lens R))
+    (fun _ => mulD) hl [p, q] [dz] rfl _ _ hval hadj).2.2.2
+
+end
+
+/-! ## 13. `rev_correct_statement` as written is FALSE -/
+
+/-- a degenerate lax optic: empty forward object images, one-element reverse object images, and
+    every generator sent to the EMPTY diagram on both sides (the reverse image is ill-typed: it
+    should be a diagram `R(t) → R(s)`; the evaluator does not notice, `eval` ignores surplus
+    inputs) -/
+def badOptic : LOptic Unit Unit Unit Unit where
+  fwdObject := fun _ => []
+  revObject := fun _ => [()]
+  fwdOperation := fun _ _ _ => .ok LOHG.empty
+  revOperation := fun _ _ _ => .ok LOHG.empty
+  residual := fun _ => []
+
+/-- one operation `() : [()] → [()]` -/
+def badCircuit : LOHG Unit Unit := ⟨[0], [1], ⟨[(), ()], [()], [⟨[0], [1]⟩], ([], [])⟩⟩
+
+theorem badOptic_panics :
+    LOptic.mapAdapted vecBackend badOptic badCircuit = .panic "optic.map_operations:unwrap-rhs" := by
+  decide
+
+theorem bad_generatorsCorrect :
+    GeneratorsCorrect (R := BitVec 64) vecBackend badOptic (fun _ _ => []) (fun _ _ => []) := by
+  intro a s t x dy hx hdy
+  have hx0 : x = [] := by
+    apply List.eq_nil_of_length_eq_zero
+    rw [hx]
+    induction s with
+    | nil => rfl
+    | cons o s ih => simp [badOptic]
+  subst hx0
+  obtain ⟨ts, wE, _⟩ := C10.toStrict_spec vecBackend C10.vecBackend_idCC
+    (LOHG.empty : LOHG Unit Unit) rfl rfl
+  have hev : ∀ inp : List (BitVec 64),
+      Graph.eval vecBackend (LaxStrict.pack (LOHG.empty : LOHG Unit Unit)) (0 : BitVec 64) inp
+        (applyOf (fun _ _ => [])) = .ok [] := by
+    intro inp
+    rw [C16.eval_input_normalised vecBackend vecBackend_lawful _ wE (0 : BitVec 64) inp _
+      List.nodup_nil]
+    have e : Eval.normInput (LaxStrict.pack (LOHG.empty : LOHG Unit Unit)).s.table.length
+        (0 : BitVec 64) inp = [] := rfl
+    rw [e, applyOf_eq]
+    have hval : IsValuation (LaxStrict.pack (LOHG.empty : LOHG Unit Unit)).toPlain
+        (fun (_ : Unit) (_ : List (BitVec 64)) => ([] : List (BitVec 64))) (0 : BitVec 64) []
+        (fun _ => 0) :=
+      ⟨rfl, (fun e he => by cases he), fun _ _ _ _ => rfl⟩
+    rw [C16.eval_eq_of_valuation vecBackend vecBackend_lawful _ wE _ (0 : BitVec 64) []
+      (fun y hy => absurd hy (Nat.not_lt_zero _)) (by show ([] : List Nat).Nodup; exact List.nodup_nil)
+      (fun e he => absurd he (by show e ∉ ([] : List (PEdge Unit)); simp)) rfl hval]
+    rfl
+  refine ⟨LOHG.empty, LOHG.empty, _, _, [], [], [], rfl, ts, rfl, ts, hev _, ?_, rfl, hev _, rfl,
+    fun _ _ => rfl, ?_⟩
+  · induction t with
+    | nil => rfl
+    | cons o t ih => simp [badOptic]
+  · intro v hv
+    have : v = [] := List.eq_nil_of_length_eq_zero hv
+    subst this
+    simp
+
+/-- **the statement of `Props/C14.lean` is false as written**: its hypothesis does not force the
+    generator images to be well-typed, and on an ill-typed reverse image the optic construction
+    panics (`compose` of mismatched types inside `Optic::map_operations`) -/
+theorem rev_correct_statement_false : ¬ rev_correct_statement := by
+  intro h
+  obtain ⟨ts, _, _⟩ := C10.toStrict_spec vecBackend C10.vecBackend_idCC badCircuit rfl rfl
+  have hac : Acyclic (LaxStrict.pack badCircuit).toPlain := by
+    apply acyclic_of_rank (rk := fun v => v)
+    intro e he
+    have he' : e ∈ [(⟨(), [0], [1]⟩ : PEdge Unit)] := he
+    simp only [List.mem_cons, List.not_mem_nil, or_false] at he'
+    subst he'
+    intro x hx y hy
+    simp at hx hy
+    omega
+  have hm : Monogamous (LaxStrict.pack badCircuit).toPlain := by
+    apply monogamous_of_perm <;> decide
+  obtain ⟨g, _, _, _, hg, _⟩ := h (BitVec 64) Unit Unit Unit Unit vecBackend vecBackend_lawful
+    badOptic (fun _ _ => []) (fun _ _ => []) bad_generatorsCorrect badCircuit
+    (LaxStrict.pack badCircuit) rfl ts hac hm [()] [()] rfl rfl [] [0] rfl rfl
+  rw [badOptic_panics] at hg
+  cases hg
 
 end OH.C14
